@@ -6,6 +6,7 @@ import (
 	"go/token"
 	"go/types"
 	"sort"
+	"strconv"
 	"strings"
 
 	"golang.org/x/tools/go/ssa"
@@ -15,9 +16,13 @@ import (
 )
 
 // C04 — termination under timely delivery (narrow): every event of core/qbft.Run's loop performs its
-// protocol action and re-arms the round timer. The rules are effect-after (must-pass-through) queries on
-// the event loop of Run; state variables are resolved as SSA cells/phis, helper closures are resolved
-// through their bindings (c02Run), broadcasts are lifted to the call sites in Run.
+// protocol action and re-arms the round timer. The rules are statements about every path of one iteration
+// of the event loop (from the select to the next select, a return or a panic). The paths are enumerated by
+// the abstract evaluator of c04eng.go, which follows Run's function literals and the in-package helpers that
+// contain protocol actions, tracks the captured state per path and records calls, stores and branch
+// decisions as a trace; a rule is a predicate over traces ("on every path that took the timer case the round
+// state ends as round+1, the next select waits on a timer started for that value, and a ROUND-CHANGE was
+// broadcast for it"). Nothing in the rules depends on which block, closure or variable form the code uses.
 
 func init() {
 	Register(&Prop{
@@ -34,7 +39,7 @@ func init() {
 			"and 'no honest message is rejected as unjustified' (producer/verifier agreement of justifications). Payload of PREPARE/COMMIT/ROUND-CHANGE and the prepared triple are C02-Q3/Q5; the decision latch is C03-V1.",
 		Assumptions: []string{
 			"first-call evaluation of the limiter/duplicate filter assumes the looked-up map has no entry for the key and rounds are >= 1 (C05-A4 rejects round <= 0)",
-			"a path that leaves Run with a non-nil error is not required to perform the action (errors are fatal for the instance)",
+			"a path that leaves Run with an error reported by the transport or the context is not required to perform the action (errors are fatal for the instance); a timer / round-change / quorum event answered by an error Run constructs itself counts as not handled",
 		},
 		Run:     c04,
 		Mutants: c04Mutants,
@@ -42,7 +47,46 @@ func init() {
 }
 
 // ---------------------------------------------------------------------------------------------
-// generic helpers
+// the Run model: every path of one iteration of the event loop, as traces (see c04eng.go)
+
+const (
+	c04NewTimer  = "field:" + c02P + ".Definition.NewTimer"
+	c04Broadcast = "field:" + c02P + ".Transport.Broadcast"
+	c04Decide    = "field:" + c02P + ".Definition.Decide"
+	c04IsLeader  = "field:" + c02P + ".Definition.IsLeader"
+	c04Compare   = "static:" + c02P + ".compare"
+	c04Classify  = "static:" + c02P + ".classify"
+	c04Await     = "static:" + c02P + ".awaitCompare"
+	c04NextMin   = "static:" + c02P + ".nextMinRound"
+)
+
+func c04IsEvent(name string) bool {
+	switch name {
+	case c04NewTimer, c04Broadcast, c04Decide, c04Compare, c04Classify:
+		return true
+	}
+	return false
+}
+
+type c04Run struct {
+	c         *rt.Ctx
+	fn        *ssa.Function
+	sel       *ssa.Select
+	timerK    int
+	recvK     int
+	recvExt   int // tuple index of the received message
+	x         *c04Exec
+	its       []*c04Trace // from the select to the next select (or a return / panic)
+	pre       []*c04Trace // from the entry of Run to the first select
+	roundAl   *ssa.Alloc
+	roundPath []int
+	roundAddr string
+	roundAt0  *c04T // the address term
+	roundInit *c04T
+	names     map[int64]string // UponRule constant names
+	rules     map[string]int64
+	msgTypes  map[string]int64
+}
 
 func c04Idx(in ssa.Instruction) int {
 	for i, x := range in.Block().Instrs {
@@ -53,253 +97,62 @@ func c04Idx(in ssa.Instruction) int {
 	return -1
 }
 
-// c04Walk searches a path that reaches `stop` (or an escaping return) without executing an effect.
-type c04Walk struct {
-	effect func(ssa.Instruction) bool
-	prune  func(b *ssa.BasicBlock, succ int) bool
-	stop   *ssa.BasicBlock
-	retEsc func(*ssa.Return) bool // nil: every return escapes
-}
-
-func (w c04Walk) from(b *ssa.BasicBlock, idx int) ([]*ssa.BasicBlock, bool) {
-	seen := map[*ssa.BasicBlock]bool{}
-	var path []*ssa.BasicBlock
-	var walk func(b *ssa.BasicBlock, i int) bool
-	walk = func(b *ssa.BasicBlock, i int) bool {
-		path = append(path, b)
-		for ; i < len(b.Instrs); i++ {
-			in := b.Instrs[i]
-			if w.effect != nil && w.effect(in) {
-				path = path[:len(path)-1]
-				return false
-			}
-			switch x := in.(type) {
-			case *ssa.Return:
-				if w.retEsc == nil || w.retEsc(x) {
-					return true
-				}
-				path = path[:len(path)-1]
-				return false
-			case *ssa.Panic:
-				path = path[:len(path)-1]
-				return false
-			}
-		}
-		for si, s := range b.Succs {
-			if w.prune != nil && w.prune(b, si) {
-				continue
-			}
-			if s == w.stop {
-				path = append(path, s)
-				return true
-			}
-			if seen[s] {
-				continue
-			}
-			seen[s] = true
-			if walk(s, 0) {
-				return true
-			}
-		}
-		path = path[:len(path)-1]
-		return false
-	}
-	esc := walk(b, idx)
-	return path, esc
-}
-
-// c04ReturnsNilErr: the return hands back a nil error (looking through the spill slot a deferred
-// function forces on named results).
-func c04ReturnsNilErr(ret *ssa.Return) bool {
-	if len(ret.Results) == 0 {
-		return true
-	}
-	v := ret.Results[len(ret.Results)-1]
-	if ld, ok := v.(*ssa.UnOp); ok && ld.Op == token.MUL {
-		if al, ok := ld.X.(*ssa.Alloc); ok {
-			var val ssa.Value
-			for _, in := range ret.Block().Instrs {
-				if in == ssa.Instruction(ld) {
-					break
-				}
-				if st, ok := in.(*ssa.Store); ok && st.Addr == ssa.Value(al) {
-					val = st.Val
-				}
-			}
-			if val == nil {
-				return true
-			}
-			v = val
-		}
-	}
-	return an.IsNilConst(v)
-}
-
-// c04OnEveryPath: instruction `in` is executed on every path from the entry of its function to a return.
-func c04OnEveryPath(in ssa.Instruction) bool {
-	f := in.Parent()
-	_, esc := c04Walk{effect: func(x ssa.Instruction) bool { return x == in }}.from(f.Blocks[0], 0)
-	return !esc
-}
-
-func c04Extract(call ssa.Value, idx int) ssa.Value {
-	if call == nil || call.Referrers() == nil {
-		return nil
-	}
-	for _, ref := range *call.Referrers() {
-		if ex, ok := ref.(*ssa.Extract); ok && ex.Index == idx {
-			return ex
-		}
-	}
-	return nil
-}
-
-// c04Cond is a decoded branch condition: (x op y), or the boolean x when y == nil; neg if negated.
-type c04Cond struct {
-	x, y ssa.Value
-	op   token.Token
-	neg  bool
-}
-
-func c04Decode(v ssa.Value) c04Cond {
-	neg := false
-	for {
-		u, ok := v.(*ssa.UnOp)
-		if !ok || u.Op != token.NOT {
-			break
-		}
-		neg = !neg
-		v = u.X
-	}
-	if b, ok := v.(*ssa.BinOp); ok && c02IsCmp(b.Op) {
-		return c04Cond{x: b.X, y: b.Y, op: b.Op, neg: neg}
-	}
-	return c04Cond{x: v, neg: neg}
-}
-
-// succ: index of the successor taken when the comparison / boolean has truth t.
-func (cd c04Cond) succ(t bool) int {
-	if cd.neg {
-		t = !t
-	}
-	if t {
-		return 0
-	}
-	return 1
-}
-
-func c04If(b *ssa.BasicBlock) *ssa.If {
-	if len(b.Instrs) == 0 {
-		return nil
-	}
-	iff, _ := b.Instrs[len(b.Instrs)-1].(*ssa.If)
-	return iff
-}
-
-// c04EqEdge: for a branch comparing a value satisfying isX with a value satisfying isY by ==/!=, the index
-// of the successor taken when they are equal.
-func c04EqEdge(iff *ssa.If, isX, isY func(ssa.Value) bool) (int, bool) {
-	cd := c04Decode(iff.Cond)
-	if cd.y == nil || (cd.op != token.EQL && cd.op != token.NEQ) {
-		return 0, false
-	}
-	if !(isX(cd.x) && isY(cd.y)) && !(isX(cd.y) && isY(cd.x)) {
-		return 0, false
-	}
-	return cd.succ(cd.op == token.EQL), true
-}
-
-// c04BoolEdge: for a branch on the boolean v, the successor index taken when v has truth t.
-func c04BoolEdge(iff *ssa.If, v ssa.Value, t bool) (int, bool) {
-	cd := c04Decode(iff.Cond)
-	if cd.y == nil {
-		if cd.x != v {
-			return 0, false
-		}
-		return cd.succ(t), true
-	}
-	if cd.op != token.EQL && cd.op != token.NEQ {
-		return 0, false
-	}
-	other := cd.y
-	if cd.x != v {
-		if cd.y != v {
-			return 0, false
-		}
-		other = cd.x
-	}
-	k, ok := c02ConstBool(other)
-	if !ok {
-		return 0, false
-	}
-	return cd.succ((cd.op == token.EQL) == (k == t)), true
-}
-
-func c04FieldCall(cc *ssa.CallCommon, name string) bool {
-	if cc.IsInvoke() || cc.StaticCallee() != nil {
-		return false
-	}
-	k, _, ok := an.FieldOf(cc.Value)
-	return ok && c02Strip(k) == c02P+"."+name
-}
-
-// ---------------------------------------------------------------------------------------------
-// the Run model
-
-type c04Send struct {
-	call   ssa.CallInstruction // the call in the function the list was asked for
-	inner  ssa.CallInstruction // the Transport.Broadcast call
-	args   []ssa.Value         // ctx, typ, instance, source, round, value, pr, pv, justification
-	always bool                // the broadcast happens on every path through the helper closures
-}
-
-type c04Advance struct {
-	in       ssa.Instruction
-	newRound ssa.Value
-}
-
-type c04Run struct {
-	*c02Run
-	loop      *an.Loop
-	hdr       *ssa.BasicBlock
-	sel       *ssa.Select
-	selIdx    ssa.Value
-	roundCell *ssa.Alloc
-	procCell  *ssa.Alloc
-	timerPhi  *ssa.Phi
-	timerK    int
-	recvK     int
-	sends     []c04Send
-	memo      map[*ssa.Function][]c04Send
-	advances  []c04Advance
-	advancers []*ssa.Function
-	newTimers []*ssa.Call
-	names     map[int64]string // UponRule constant names
-	msgTypes  map[string]int64
-}
-
 func c04NewRun(c *rt.Ctx) *c04Run {
-	r := &c04Run{c02Run: c02NewRun(c), memo: map[*ssa.Function][]c04Send{}, names: map[int64]string{}, msgTypes: map[string]int64{}}
-	ex, ok := r.recvMsg.(*ssa.Extract)
-	if !ok {
-		c.Bail("Run: received message is not a select result")
+	r := &c04Run{c: c, fn: c.Fn(c02P + ".Run"), names: map[int64]string{}, rules: map[string]int64{}, msgTypes: map[string]int64{}, timerK: -1, recvK: -1}
+	// the event loop's select: the one that receives from Transport.Receive
+	for _, in := range an.Instrs(r.fn, true) {
+		sel, ok := in.(*ssa.Select)
+		if !ok {
+			continue
+		}
+		n := 0
+		for k, st := range sel.States {
+			if st.Dir != types.RecvOnly {
+				continue
+			}
+			if key, _, ok := an.FieldOf(st.Chan); ok && c02Strip(key) == c02P+".Transport.Receive" {
+				if r.sel != nil {
+					c.Bail("Run: several receives from Transport.Receive")
+				}
+				r.sel, r.recvK, r.recvExt = sel, k, 2+n
+			}
+			n++
+		}
 	}
-	r.sel, ok = ex.Tuple.(*ssa.Select)
-	if !ok {
-		c.Bail("Run: received message is not a select result")
+	if r.sel == nil {
+		c.Bail("Run: no select receiving from Transport.Receive")
 	}
-	r.loop = an.InnermostLoop(r.fn, r.sel.Block())
-	if r.loop == nil {
-		c.Bail("Run: the select over Transport.Receive is not inside a loop")
+	probe := c04NewExec(c04Cfg{root: r.fn, isEvent: c04IsEvent})
+	var startIn *ssa.Call
+	switch host := r.sel.Parent(); {
+	case host == r.fn:
+		if an.InnermostLoop(r.fn, r.sel.Block()) == nil {
+			c.Bail("Run: the select over Transport.Receive is not inside a loop")
+		}
+	case host.Parent() == r.fn:
+		// the select lies in a function literal (a "next event" helper) called from Run's loop
+		for _, in := range an.Instrs(r.fn, false) {
+			if call, ok := in.(*ssa.Call); ok && probe.staticCallee(&call.Call) == host {
+				if startIn != nil {
+					c.Bail("Run: the helper holding the event select is called from several places")
+				}
+				startIn = call
+			}
+		}
+		if startIn == nil || an.InnermostLoop(r.fn, startIn.Block()) == nil {
+			c.Bail("Run: the helper holding the event select is not called from a loop of Run")
+		}
+	default:
+		c.Bail("Run: the select over Transport.Receive is nested too deeply in helpers")
 	}
-	r.hdr = r.loop.Header
-	r.selIdx = c04Extract(r.sel, 0)
-	if r.selIdx == nil {
-		c.Bail("Run: select index is unused")
-	}
-	r.recvK = r.stateOfRecv(ex.Index)
-	if r.recvK < 0 {
-		c.Bail("Run: cannot map the received message to a select state")
+	for k, st := range r.sel.States {
+		ch, ok := st.Chan.Type().Underlying().(*types.Chan)
+		if st.Dir == types.RecvOnly && ok && an.TypeName(ch.Elem()) == "time.Time" {
+			if r.timerK >= 0 {
+				c.Bail("Run: several select cases wait on a timer channel")
+			}
+			r.timerK = k
+		}
 	}
 	scope := c.Pkg(c02P).Types.Scope()
 	for _, n := range scope.Names() {
@@ -314,6 +167,7 @@ func c04NewRun(c *rt.Ctx) *c04Run {
 		switch an.TypeName(k.Type()) {
 		case c02P + ".UponRule":
 			r.names[v] = n
+			r.rules[n] = v
 		case c02P + ".MsgType":
 			r.msgTypes[n] = v
 		}
@@ -323,603 +177,396 @@ func c04NewRun(c *rt.Ctx) *c04Run {
 			c.Bail("constant %s.%s not found", c02P, n)
 		}
 	}
-	// broadcasts, round and process cells
-	r.sends = r.sendsIn(r.fn, 0)
-	if len(r.sends) == 0 {
+	r.x = c04NewExec(c04Cfg{root: r.fn, stop: r.sel, startB: r.sel.Block(), startI: c04Idx(r.sel), startIn: startIn, isEvent: c04IsEvent})
+	r.its = r.x.run()
+	if r.x.err != "" {
+		c.Bail("Run: path enumeration of the event loop failed: %s", r.x.err)
+	}
+	px := c04NewExec(c04Cfg{root: r.fn, stop: r.sel, isEvent: c04IsEvent})
+	px.allocID = r.x.allocID
+	r.pre = px.run()
+	if px.err != "" {
+		c.Bail("Run: path enumeration of the start of Run failed: %s", px.err)
+	}
+	for _, tr := range r.its {
+		if len(tr.evs) == 0 || tr.evs[0].kind != "select" || tr.evs[0].res == nil {
+			c.Bail("Run: an iteration does not start at the select")
+		}
+	}
+	// the round state: the memory location every broadcast reads its round argument from
+	var raddr *c04T
+	nb := 0
+	for _, tr := range r.its {
+		for _, e := range tr.evs {
+			if e.kind != "call" || e.name != c04Broadcast {
+				continue
+			}
+			nb++
+			if len(e.args) != 9 {
+				c.Bail("Transport.Broadcast: unexpected arity")
+			}
+			if f := e.args[4].from; f != nil {
+				if raddr != nil && raddr.k != f.k {
+					c.Bail("Run: the round argument of the broadcasts is not one single round state")
+				}
+				raddr = f
+			}
+		}
+	}
+	if nb == 0 {
 		c.Bail("Run: no Transport.Broadcast reachable from Run")
 	}
-	for _, s := range r.sends {
-		rc, pc := r.cellOf(s.args[4]), r.cellOf(s.args[3])
-		if rc == nil || (r.roundCell != nil && rc != r.roundCell) {
-			c.Bail("Run: the round argument of a broadcast is not the single round state cell")
-		}
-		if pc == nil || (r.procCell != nil && pc != r.procCell) {
-			c.Bail("Run: the source argument of a broadcast is not the single process cell")
-		}
-		r.roundCell, r.procCell = rc, pc
-		if _, ok := an.ConstInt(s.args[1]); !ok {
-			c.Bail("Run: message type of the broadcast at %s is not a constant", c.P.Pos(s.call.Pos()))
-		}
+	if raddr == nil {
+		c.Bail("Run: the round argument of the broadcasts is not read from a state variable of Run")
 	}
-	// round advances: closures storing a parameter into the round cell, called from Run; direct stores inside the loop
-	for _, f := range r.all {
-		for _, in := range an.Instrs(f, false) {
-			st, ok := in.(*ssa.Store)
-			if !ok || r.cellAddr(st.Addr) != r.roundCell {
-				continue
-			}
-			if f == r.fn {
-				if r.loop.Body[st.Block()] {
-					r.advances = append(r.advances, c04Advance{in: st, newRound: st.Val})
-				}
-				continue
-			}
-			p, ok := st.Val.(*ssa.Parameter)
-			if !ok {
-				c.Bail("Run: closure %s stores a computed value into the round cell", an.FuncName(f))
-			}
-			pi := -1
-			for i, q := range f.Params {
-				if q == p {
-					pi = i
-				}
-			}
-			r.advancers = append(r.advancers, f)
-			for _, s := range r.callSites(f) {
-				if s.Parent() != r.fn {
-					c.Bail("Run: the round-changing closure is called from another closure")
-				}
-				if _, isCall := s.(*ssa.Call); !isCall || pi >= len(s.Common().Args) {
-					c.Bail("Run: the round-changing closure is deferred or spawned")
-				}
-				r.advances = append(r.advances, c04Advance{in: s, newRound: s.Common().Args[pi]})
-			}
-		}
+	root, path := c04AddrRoot(raddr)
+	if root.kind != 'a' || root.al.Parent() != r.fn {
+		c.Bail("Run: the round state is not a variable of Run")
 	}
-	// timers
-	for _, in := range an.Instrs(r.fn, false) {
-		if call, ok := in.(*ssa.Call); ok && c04FieldCall(&call.Call, "Definition.NewTimer") {
-			r.newTimers = append(r.newTimers, call)
-		}
-	}
-	if len(r.newTimers) == 0 {
-		c.Bail("Run: no call of Definition.NewTimer")
-	}
-	r.timerK = -1
-	for k, st := range r.sel.States {
-		p, ok := st.Chan.(*ssa.Phi)
-		if !ok || p.Block() != r.hdr || st.Dir != types.RecvOnly {
-			continue
-		}
-		_, inputs := c02PhiWeb(p)
-		for _, v := range inputs {
-			if e, ok := v.(*ssa.Extract); ok && e.Index == 0 {
-				if call, ok := e.Tuple.(*ssa.Call); ok && c04FieldCall(&call.Call, "Definition.NewTimer") {
-					if r.timerK >= 0 && r.timerK != k {
-						c.Bail("Run: several select cases wait on a timer channel")
-					}
-					r.timerK, r.timerPhi = k, p
-				}
-			}
-		}
-	}
+	r.roundAl, r.roundPath = root.al, path
+	r.roundAddr, r.roundAt0, r.roundInit = raddr.k, raddr, r.x.initOf(raddr)
 	return r
 }
 
-// needTimer bails (UNDECIDED) when the timer channel is not a loop-carried SSA value.
+// roundStores counts the stores into the round state in the event loop of Run and in its function literals; direct lists the
+// function literals that contain one.
+func (r *c04Run) roundStores() (n int, direct []*ssa.Function) {
+	for _, f := range r.x.family {
+		has := false
+		for _, in := range an.Instrs(f, false) {
+			if st, ok := in.(*ssa.Store); ok {
+				if al, p := r.x.staticAddr(st.Addr); al == r.roundAl && c04SamePath(p, r.roundPath) {
+					// the initialisation before the loop does not count
+					if f != r.fn || an.InnermostLoop(f, st.Block()) != nil {
+						n++
+					}
+					has = true
+				}
+			}
+		}
+		if has && f != r.fn {
+			direct = append(direct, f)
+		}
+	}
+	return
+}
+
+// roundInitType: the type of the round state.
+func (r *c04Run) roundInitType() types.Type {
+	typ := r.roundAl.Type().Underlying().(*types.Pointer).Elem()
+	for _, i := range r.roundPath {
+		if st, ok := typ.Underlying().(*types.Struct); ok && i < st.NumFields() {
+			typ = st.Field(i).Type()
+		}
+	}
+	return typ
+}
+
+// isRunState: addr denotes a variable of Run (or a field of one).
+func (r *c04Run) isRunState(addr *c04T) bool {
+	root, _ := c04AddrRoot(addr)
+	return root.kind == 'a' && root.al.Parent() == r.fn
+}
+
 func (r *c04Run) needTimer() {
 	if r.timerK < 0 {
-		r.c.Bail("Run: no select case waits on a loop-carried channel fed by Definition.NewTimer (timer channel is not a loop phi)")
+		r.c.Bail("Run: no select case waits on a timer channel")
 	}
 }
 
-// stateOfRecv maps the tuple index of a received value to the select state.
-func (r *c04Run) stateOfRecv(exIdx int) int {
+func (r *c04Run) selRes(tr *c04Trace) *c04T { return tr.evs[0].res }
+func (r *c04Run) idx(tr *c04Trace) *c04T    { return c04S("ext#0", r.selRes(tr)) }
+func (r *c04Run) msg(tr *c04Trace) *c04T    { return c04S("ext#"+strconv.Itoa(r.recvExt), r.selRes(tr)) }
+func (r *c04Run) msgCall(tr *c04Trace, method string) *c04T {
+	return c04S("inv:"+method, r.msg(tr))
+}
+
+// recvExtOf: the tuple index of the value received in select state k.
+func (r *c04Run) recvExtOf(k int) int {
 	n := 0
-	for k, st := range r.sel.States {
+	for i, st := range r.sel.States {
 		if st.Dir != types.RecvOnly {
 			continue
 		}
-		if 2+n == exIdx {
-			return k
+		if i == k {
+			return 2 + n
 		}
 		n++
 	}
 	return -1
 }
 
-// eqEdges returns the blocks entered when v equals the constant k.
-func (r *c04Run) eqEdges(v ssa.Value, k int64) []*ssa.BasicBlock {
+func (r *c04Run) inState(tr *c04Trace, k int) bool {
+	return tr.has(c04Eq(r.idx(tr), c04Int(int64(k))), true)
+}
+
+// live: the path goes on to the next select, or ends the instance without an error.
+func c04Live(tr *c04Trace) bool {
+	switch tr.exit {
+	case "stop":
+		return true
+	case "ret":
+		return len(tr.ret) == 0 || tr.ret[len(tr.ret)-1].kind == 'n'
+	}
+	return false
+}
+
+// c04Aborts: the path ends the instance with an error that Run (or a helper) constructed itself on this path —
+// a deliberate abort, as opposed to a failure reported by the transport or the context.
+func c04Aborts(tr *c04Trace) bool {
+	return tr.exit == "ret" && len(tr.ret) > 0 && c04IsErrCtor(tr.ret[len(tr.ret)-1])
+}
+
+// c04ActOf: the paths on which a protocol action is due: those that go on, and those that abort deliberately
+// (an event answered by aborting the instance has not been handled).
+func c04ActOf(trs []*c04Trace) []*c04Trace {
+	var out []*c04Trace
+	for _, tr := range trs {
+		if c04Live(tr) || c04Aborts(tr) {
+			out = append(out, tr)
+		}
+	}
+	return out
+}
+
+func c04LiveOf(trs []*c04Trace) []*c04Trace {
+	var out []*c04Trace
+	for _, tr := range trs {
+		if c04Live(tr) {
+			out = append(out, tr)
+		}
+	}
+	return out
+}
+
+// cls: the classify call of the path: event index, rule term, justification term.
+func (r *c04Run) cls(tr *c04Trace) (int, *c04T, *c04T) {
+	is := tr.calls(c04Classify)
+	if len(is) == 0 {
+		return -1, nil, nil
+	}
+	res := tr.evs[is[0]].res
+	return is[0], c04S("ext#0", res), c04S("ext#1", res)
+}
+
+// ruleTraces: the paths on which classify's rule was decided to be the named one.
+func (r *c04Run) ruleTraces(name string) []*c04Trace {
+	k, ok := r.rules[name]
+	if !ok {
+		r.c.Bail("constant %s.%s not found", c02P, name)
+	}
+	var out []*c04Trace
+	for _, tr := range r.its {
+		if _, rule, _ := r.cls(tr); rule != nil && tr.has(c04Eq(rule, c04Int(k)), true) {
+			out = append(out, tr)
+		}
+	}
+	return out
+}
+
+func (r *c04Run) ruleStartIdx(tr *c04Trace, name string) int {
+	_, rule, _ := r.cls(tr)
+	return tr.decIndex(c04Eq(rule, c04Int(r.rules[name])), true)
+}
+
+func (r *c04Run) finalRound(tr *c04Trace) *c04T {
+	return tr.x.load(&c04State{mem: tr.mem, dec: tr.dec}, r.roundAt0, r.roundInitType())
+}
+
+func (r *c04Run) roundAt(tr *c04Trace, i int) *c04T {
+	if t := tr.memAt(r.roundAddr, i); t != nil {
+		return t
+	}
+	return r.roundInit
+}
+
+// bcast: e is a broadcast of the named message type.
+func (r *c04Run) bcast(e *c04Ev, typ string) bool {
+	if e.kind != "call" || e.name != c04Broadcast || len(e.args) != 9 {
+		return false
+	}
+	k, ok := e.args[1].isInt()
+	return ok && k == r.msgTypes[typ]
+}
+
+func c04EvPos(e *c04Ev) token.Pos {
+	if e != nil && e.in != nil {
+		return posOf(e.in)
+	}
+	return token.NoPos
+}
+
+// forall records one obligation: pred holds on every one of the paths.
+func (r *c04Run) forall(key string, pos token.Pos, trs []*c04Trace, pred func(tr *c04Trace) (bool, string)) bool {
+	if len(trs) == 0 {
+		r.c.Unsure(key, pos, "no path of this kind was found in Run")
+		return false
+	}
+	for _, tr := range trs {
+		if ok, why := pred(tr); !ok {
+			if strings.HasPrefix(why, "?") { // the shape of this path is not understood: undecided, never a violation
+				r.c.Unsure(key, pos, why[1:]+"; on the path ["+tr.path()+"]")
+				return false
+			}
+			if u := c04Unfollowed(tr); u != "" { // code that may perform the action was not followed
+				r.c.Unsure(key, pos, "the path calls a function value that could not be resolved ("+u+"), so what it does is unknown; on the path ["+tr.path()+"]")
+				return false
+			}
+			r.c.Check(key, pos, false, why+"; on the path ["+tr.path()+"] "+an.PathString(r.c.P, c04RootBlocks(tr, r.fn)))
+			return false
+		}
+	}
+	r.c.Check(key, pos, true, "")
+	return true
+}
+
+// c04Unfollowed names a call on the path whose target is a function value of unknown identity — other than the
+// stop function of a round timer (a parameterless, resultless function held in the state or returned by NewTimer).
+func c04Unfollowed(tr *c04Trace) string {
+	for _, e := range tr.evs {
+		if e.kind != "call" || !strings.HasPrefix(e.name, "value:") {
+			continue
+		}
+		callee := strings.TrimPrefix(e.name, "value:")
+		call, ok := e.in.(*ssa.Call)
+		if !ok {
+			continue
+		}
+		sig, _ := call.Call.Value.Type().Underlying().(*types.Signature)
+		plain := sig != nil && sig.Params().Len() == 0 && sig.Results().Len() == 0
+		if plain && (strings.HasPrefix(callee, "init:") || strings.HasPrefix(callee, "fld:") || strings.HasPrefix(callee, "ext#1(ev:"+c04NewTimer) || callee == "nil") {
+			continue
+		}
+		return callee
+	}
+	return ""
+}
+
+func c04RootBlocks(tr *c04Trace, fn *ssa.Function) []*ssa.BasicBlock {
 	var out []*ssa.BasicBlock
-	for _, cd := range an.CondsOn(r.fn, v) {
-		n, ok := an.ConstInt(cd.Other)
-		if !ok || n != k {
-			continue
-		}
-		var b *ssa.BasicBlock
-		switch cd.Op {
-		case token.EQL:
-			b = cd.Succ(true)
-		case token.NEQ:
-			b = cd.Succ(false)
-		default:
-			continue
-		}
-		dup := false
-		for _, x := range out {
-			dup = dup || x == b
-		}
-		if !dup {
+	for _, b := range tr.blocks {
+		if b.Parent() == fn {
 			out = append(out, b)
 		}
 	}
 	return out
 }
 
-func (r *c04Run) stateStart(k int) []*ssa.BasicBlock { return r.eqEdges(r.selIdx, int64(k)) }
-
-func (r *c04Run) ruleStart(name string) []*ssa.BasicBlock {
-	bs := r.eqEdges(r.ruleV, constOf(r.c, c02P, name))
-	if len(bs) == 0 {
-		r.c.Bail("Run: no branch for %s", name)
+// timeoutSeq decides the round-timeout sequence on the given paths, from event index start(tr) on:
+// the round moves to the right new round, a timer is started for that round after the move, the next select
+// waits on that timer, and ROUND-CHANGE is broadcast for the new round.
+func (r *c04Run) timeoutSeq(region string, pos token.Pos, trs []*c04Trace, start func(tr *c04Trace) int,
+	newRoundOK func(tr *c04Trace, f, r0 *c04T) (bool, string)) {
+	type info struct {
+		i0, iAdv int
+		r0, f    *c04T
+		nt       *c04Ev
 	}
-	return bs
-}
-
-// sendsIn lists the Transport.Broadcast calls reachable from f through helper closures of Run, with the
-// arguments expressed in terms of f's values.
-func (r *c04Run) sendsIn(f *ssa.Function, depth int) []c04Send {
-	if s, ok := r.memo[f]; ok {
-		return s
-	}
-	var out []c04Send
-	for _, in := range an.Instrs(f, false) {
-		ci, ok := in.(*ssa.Call)
-		if !ok || ci.Call.IsInvoke() {
-			continue
+	get := func(tr *c04Trace) info {
+		var n info
+		n.i0 = start(tr)
+		if n.i0 < 0 {
+			n.i0 = 0
 		}
-		if c04FieldCall(&ci.Call, "Transport.Broadcast") {
-			if len(ci.Call.Args) != 9 {
-				r.c.Bail("Transport.Broadcast: unexpected arity")
+		n.r0, n.f, n.iAdv = r.roundAt(tr, n.i0+1), r.finalRound(tr), n.i0
+		for j := n.i0 + 1; j < len(tr.evs); j++ {
+			if e := tr.evs[j]; e.kind == "store" && e.addr.k == r.roundAddr {
+				n.iAdv = j
 			}
-			out = append(out, c04Send{call: ci, inner: ci, args: append([]ssa.Value(nil), ci.Call.Args...), always: true})
-			continue
 		}
-		h := r.closureOf(ci.Call.Value)
-		if h == nil || h == f || depth > 3 {
-			continue
-		}
-		for _, s := range r.sendsIn(h, depth+1) {
-			ns := c04Send{call: ci, inner: s.inner, args: append([]ssa.Value(nil), s.args...), always: s.always && c04OnEveryPath(s.call)}
-			for i, a := range ns.args {
-				if p, ok := a.(*ssa.Parameter); ok && p.Parent() == h {
-					for j, hp := range h.Params {
-						if hp == p && j < len(ci.Call.Args) {
-							ns.args[i] = ci.Call.Args[j]
-						}
-					}
-				}
+		for j := n.iAdv + 1; j < len(tr.evs); j++ {
+			if e := tr.evs[j]; e.kind == "call" && e.name == c04NewTimer {
+				n.nt = e
 			}
-			out = append(out, ns)
 		}
+		return n
 	}
-	r.memo[f] = out
-	return out
-}
-
-func (r *c04Run) sendAt(list []c04Send, in ssa.Instruction, typ string) *c04Send {
-	for i := range list {
-		s := &list[i]
-		if ssa.Instruction(s.call) != in || !s.always {
-			continue
-		}
-		if n, ok := an.ConstInt(s.args[1]); ok && n == r.msgTypes[typ] {
-			return s
-		}
-	}
-	return nil
-}
-
-// fwd: blocks reachable from b (inclusive) within one iteration of the event loop.
-func (r *c04Run) fwd(b *ssa.BasicBlock) map[*ssa.BasicBlock]bool {
-	seen := map[*ssa.BasicBlock]bool{b: true}
-	var walk func(x *ssa.BasicBlock)
-	walk = func(x *ssa.BasicBlock) {
-		for _, s := range x.Succs {
-			if s == r.hdr || seen[s] {
-				continue
-			}
-			seen[s] = true
-			walk(s)
-		}
-	}
-	walk(b)
-	return seen
-}
-
-// after: b can execute after a within the same iteration of the event loop.
-func (r *c04Run) after(a, b ssa.Instruction) bool {
-	if a.Parent() != b.Parent() {
-		return false
-	}
-	if a.Block() == b.Block() {
-		return c04Idx(a) < c04Idx(b)
-	}
-	return r.fwd(a.Block())[b.Block()]
-}
-
-func (r *c04Run) isRoundLoad(v ssa.Value) *ssa.UnOp {
-	ld, ok := an.Unwrap(v).(*ssa.UnOp)
-	if !ok || ld.Op != token.MUL || r.cellAddr(ld.X) != r.roundCell {
-		return nil
-	}
-	return ld
-}
-
-func (r *c04Run) roundPlusOne(v ssa.Value) (bool, string) {
-	b, ok := an.Unwrap(v).(*ssa.BinOp)
-	if ok && b.Op == token.ADD {
-		x, y := b.X, b.Y
-		if r.isRoundLoad(x) == nil {
-			x, y = y, x
-		}
-		if k, isK := an.ConstInt(y); r.isRoundLoad(x) != nil && isK && k == 1 {
+	r.forall(region+" round advance", pos, trs, func(tr *c04Trace) (bool, string) {
+		n := get(tr)
+		if n.f.k != n.r0.k {
 			return true, ""
 		}
-	}
-	return false, "the new round is not the current round + 1"
+		for j := n.i0 + 1; j < len(tr.evs); j++ {
+			if e := tr.evs[j]; e.kind == "dec" && e.truth && e.val.is("eq") && (e.val.args[0].k == n.r0.k || e.val.args[1].k == n.r0.k) {
+				return true, "" // the round already has the requested value
+			}
+		}
+		return false, "the event returns to the loop without advancing the round"
+	})
+	r.forall(region+" new round", pos, trs, func(tr *c04Trace) (bool, string) {
+		n := get(tr)
+		return newRoundOK(tr, n.f, n.r0)
+	})
+	r.forall(region+" round advance→NewTimer", pos, trs, func(tr *c04Trace) (bool, string) {
+		return get(tr).nt != nil, "after the round advance the loop is re-entered without starting a timer for the new round"
+	})
+	r.forall(region+" NewTimer(round)", pos, trs, func(tr *c04Trace) (bool, string) {
+		n := get(tr)
+		if n.nt == nil || len(n.nt.args) != 1 {
+			return false, "no timer is started after the round advance"
+		}
+		return tr.same(n.nt.args[0], n.f), "the timer is not created for the round the instance is in after the advance (it is created for " + n.nt.args[0].k + ")"
+	})
+	r.forall(region+" NewTimer→timerChan", pos, trs, func(tr *c04Trace) (bool, string) {
+		n := get(tr)
+		if tr.exit != "stop" {
+			return true, ""
+		}
+		if n.nt == nil {
+			return false, "no timer is started after the round advance"
+		}
+		return tr.same(tr.stop.args[r.timerK], c04S("ext#0", n.nt.res)),
+			"the channel of the new timer is not what the next select waits on (a stale or nil timer channel is kept): the new round never times out"
+	})
+	r.forall(region+" round advance→ROUND-CHANGE", pos, trs, func(tr *c04Trace) (bool, string) {
+		n := get(tr)
+		for j := n.i0 + 1; j < len(tr.evs); j++ {
+			if e := tr.evs[j]; r.bcast(e, "MsgRoundChange") && tr.same(e.args[4], n.f) {
+				return true, ""
+			}
+		}
+		return false, "after the round advance the loop is re-entered without broadcasting ROUND-CHANGE for the new round"
+	})
 }
 
-func (r *c04Run) check(key string, start *ssa.BasicBlock, idx int, pos token.Pos, w c04Walk, broken string) bool {
-	w.stop = r.hdr
-	if w.retEsc == nil {
-		w.retEsc = c04ReturnsNilErr
-	}
-	path, esc := w.from(start, idx)
-	return r.c.Check(key, pos, !esc, broken+"; path "+an.PathString(r.c.P, path))
-}
-
-func c04BlockPos(b *ssa.BasicBlock) token.Pos {
-	for _, in := range b.Instrs {
-		if in.Pos().IsValid() {
-			return in.Pos()
-		}
-	}
-	return b.Parent().Pos()
-}
-
-// timerChecks decides for one NewTimer call: it is armed for the round as it stands after the latest
-// advance, and its channel is what the next select waits on.
-func (r *c04Run) timerChecks(region string, n *ssa.Call, done map[*ssa.Call]bool) {
-	if done[n] {
-		return
-	}
-	done[n] = true
-	ok, why := true, ""
-	if len(n.Call.Args) != 1 {
-		r.c.Bail("Definition.NewTimer: unexpected arity")
-	}
-	ld := r.isRoundLoad(n.Call.Args[0])
-	if ld == nil || ld.Parent() != r.fn {
-		// accepted alternative: the very value the dominating, latest round advance has just stored
-		ok, why = false, "the timer is not created for the current round (argument is neither the round state nor the value just stored into it)"
-		for _, a := range r.advances {
-			if !an.Dominates(a.in, n) || !an.Equiv(n.Call.Args[0], a.newRound) {
-				continue
-			}
-			latest := true
-			for _, b := range r.advances {
-				if b.in != a.in && r.after(a.in, b.in) && r.after(b.in, n) {
-					latest = false
-				}
-			}
-			if latest {
-				ok, why = true, ""
-			}
-		}
-	} else {
-		for _, a := range r.advances {
-			if r.after(ld, a.in) && r.after(a.in, n) {
-				ok, why = false, "the timer is created for the round as it was before the round advance"
-			}
-		}
-	}
-	r.c.Check(region+" NewTimer(round)", n.Pos(), ok, why)
-	ok, why = r.carries(n)
-	r.c.Check(region+" NewTimer→timerChan", n.Pos(), ok, why)
-}
-
-// carries: on every path from the NewTimer call n to the next iteration, the select's timer channel is the
-// channel returned by n (or by a later NewTimer call of the same iteration).
-func (r *c04Run) carries(n *ssa.Call) (bool, string) {
-	fresh := map[ssa.Value]bool{}
-	for _, m := range r.newTimers {
-		if m == n || r.after(n, m) {
-			if e := c04Extract(m, 0); e != nil {
-				fresh[e] = true
-			}
-		}
-	}
-	reach := r.fwd(n.Block())
-	memo := map[*ssa.Phi]int{}
-	var okv func(v ssa.Value) bool
-	okv = func(v ssa.Value) bool {
-		if fresh[v] {
-			return true
-		}
-		p, ok := v.(*ssa.Phi)
-		if !ok || !reach[p.Block()] || p.Block() == n.Block() || p.Block() == r.hdr {
-			return false
-		}
-		if st, ok := memo[p]; ok {
-			return st == 1
-		}
-		memo[p] = 1
-		any := false
-		for i, pred := range p.Block().Preds {
-			if !reach[pred] {
-				continue
-			}
-			any = true
-			if !okv(p.Edges[i]) {
-				memo[p] = 2
-				return false
-			}
-		}
-		if !any {
-			memo[p] = 2
-		}
-		return any
-	}
-	for i, pred := range r.hdr.Preds {
-		if !reach[pred] {
-			continue
-		}
-		if !okv(r.timerPhi.Edges[i]) {
-			return false, "the channel of the new timer is not what the next select waits on (a stale or nil timer channel is kept): the new round never times out"
-		}
-	}
-	return true, ""
-}
-
-// timeoutSeq decides the round-timeout sequence in the region entered at start:
-// round advance → NewTimer(round) → ROUND-CHANGE broadcast on every path back to the loop.
-func (r *c04Run) timeoutSeq(region string, start *ssa.BasicBlock, newRoundOK func(ssa.Value) (bool, string), done map[*ssa.Call]bool) {
-	reach := r.fwd(start)
-	var advs []c04Advance
-	for _, a := range r.advances {
-		if reach[a.in.Block()] {
-			advs = append(advs, a)
-		}
-	}
-	isAdv := func(in ssa.Instruction) bool {
-		for _, a := range advs {
-			if a.in == in {
-				return true
-			}
-		}
-		return false
-	}
-	r.check(region+" round advance", start, 0, c04BlockPos(start), c04Walk{effect: isAdv},
-		"the event returns to the loop without advancing the round")
-	for _, a := range advs {
-		ok, why := newRoundOK(a.newRound)
-		r.c.Check(region+" new round", a.in.Pos(), ok, why)
-		r.check(region+" round advance→NewTimer", a.in.Block(), c04Idx(a.in)+1, a.in.Pos(), c04Walk{effect: func(in ssa.Instruction) bool {
-			call, ok := in.(*ssa.Call)
-			return ok && c04FieldCall(&call.Call, "Definition.NewTimer")
-		}}, "after the round advance the loop is re-entered without starting a timer for the new round")
-		for _, n := range r.newTimers {
-			if r.after(a.in, n) {
-				r.timerChecks(region, n, done)
-			}
-		}
-		r.check(region+" round advance→ROUND-CHANGE", a.in.Block(), c04Idx(a.in)+1, a.in.Pos(), c04Walk{effect: func(in ssa.Instruction) bool {
-			s := r.sendAt(r.sends, in, "MsgRoundChange")
-			if s == nil {
-				return false
-			}
-			if s.call == s.inner { // inline broadcast: the round must be read after the advance
-				ld := r.isRoundLoad(s.args[4])
-				return ld != nil && r.after(a.in, ld)
-			}
-			return true
-		}}, "after the round advance the loop is re-entered without broadcasting ROUND-CHANGE for the new round")
-	}
+func (r *c04Run) plusOne(tr *c04Trace, f, r0 *c04T) (bool, string) {
+	return tr.same(f, c04Add(r0, c04Int(1))), "the new round is not the current round + 1"
 }
 
 // ---------------------------------------------------------------------------------------------
 // first-call evaluation of the small stateful predicates (limiter, duplicate filter)
 
-type c04Itv struct {
-	lo, hi int64
-	known  bool
-	zero   bool // zero value of a struct type
-}
-
-const c04Inf = int64(1) << 60
-
-func c04Pt(k int64) c04Itv { return c04Itv{lo: k, hi: k, known: true} }
-
-// firstCall walks f assuming every map loaded from a state cell of Run has no entry for the looked-up key
-// and the given parameter lower bounds; it returns the reachable returns.
-func (r *c04Run) firstCall(f *ssa.Function, paramMin map[*ssa.Parameter]int64) []*ssa.Return {
-	var eval func(v ssa.Value, d int) c04Itv
-	eval = func(v ssa.Value, d int) c04Itv {
-		if d > 12 {
-			return c04Itv{}
-		}
-		switch x := v.(type) {
-		case *ssa.Const:
-			if x.Value == nil {
-				return c04Itv{}
-			}
-			switch x.Value.Kind() {
-			case constant.Int:
-				if k, ok := constant.Int64Val(x.Value); ok {
-					return c04Pt(k)
-				}
-			case constant.Bool:
-				if constant.BoolVal(x.Value) {
-					return c04Pt(1)
-				}
-				return c04Pt(0)
-			}
-		case *ssa.Parameter:
-			if m, ok := paramMin[x]; ok {
-				return c04Itv{lo: m, hi: c04Inf, known: true}
-			}
-		case *ssa.Lookup:
-			if x.CommaOk || r.cellOf(x.X) == nil {
-				return c04Itv{}
-			}
-			switch t := x.Type().Underlying().(type) {
-			case *types.Struct:
-				return c04Itv{zero: true}
-			case *types.Basic:
-				if t.Info()&(types.IsInteger|types.IsBoolean) != 0 {
-					return c04Pt(0)
-				}
-			}
-		case *ssa.Field:
-			if eval(x.X, d+1).zero {
-				if _, ok := x.Type().Underlying().(*types.Basic); ok {
-					return c04Pt(0)
-				}
-			}
-		case *ssa.Convert:
-			return eval(x.X, d+1)
-		case *ssa.ChangeType:
-			return eval(x.X, d+1)
-		case *ssa.UnOp:
-			switch x.Op {
-			case token.NOT:
-				if a := eval(x.X, d+1); a.known && a.lo == a.hi {
-					return c04Pt(1 - a.lo)
-				}
-			case token.MUL:
-				switch a := x.X.(type) {
-				case *ssa.Alloc:
-					if src := an.UniqueStore(a); src != nil && c04OnlyLoadsAndFields(a) {
-						return eval(src, d+1)
-					}
-				case *ssa.FieldAddr:
-					if al, ok := a.X.(*ssa.Alloc); ok {
-						if src := an.UniqueStore(al); src != nil && c04OnlyLoadsAndFields(al) && eval(src, d+1).zero {
-							if _, ok := x.Type().Underlying().(*types.Basic); ok {
-								return c04Pt(0)
-							}
-						}
-					}
-				}
-			}
-		case *ssa.BinOp:
-			a, b := eval(x.X, d+1), eval(x.Y, d+1)
-			if !a.known || !b.known {
-				return c04Itv{}
-			}
-			tf := func(t, f bool) c04Itv {
-				if t {
-					return c04Pt(1)
-				}
-				if f {
-					return c04Pt(0)
-				}
-				return c04Itv{}
-			}
-			switch x.Op {
-			case token.ADD:
-				if a.hi >= c04Inf || b.hi >= c04Inf {
-					return c04Itv{lo: a.lo + b.lo, hi: c04Inf, known: true}
-				}
-				return c04Itv{lo: a.lo + b.lo, hi: a.hi + b.hi, known: true}
-			case token.LSS:
-				return tf(a.hi < b.lo, a.lo >= b.hi)
-			case token.LEQ:
-				return tf(a.hi <= b.lo, a.lo > b.hi)
-			case token.GTR:
-				return tf(a.lo > b.hi, a.hi <= b.lo)
-			case token.GEQ:
-				return tf(a.lo >= b.hi, a.hi < b.lo)
-			case token.EQL:
-				return tf(a.lo == a.hi && b.lo == b.hi && a.lo == b.lo, a.hi < b.lo || b.hi < a.lo)
-			case token.NEQ:
-				return tf(a.hi < b.lo || b.hi < a.lo, a.lo == a.hi && b.lo == b.hi && a.lo == b.lo)
-			}
-		}
-		return c04Itv{}
-	}
-	seen := map[*ssa.BasicBlock]bool{}
-	var rets []*ssa.Return
-	var walk func(b *ssa.BasicBlock)
-	walk = func(b *ssa.BasicBlock) {
-		if seen[b] {
-			return
-		}
-		seen[b] = true
-		if len(b.Instrs) == 0 {
-			return
-		}
-		switch x := b.Instrs[len(b.Instrs)-1].(type) {
-		case *ssa.Return:
-			rets = append(rets, x)
-			return
-		case *ssa.If:
-			if v := eval(x.Cond, 0); v.known && v.lo == v.hi {
-				if v.lo != 0 {
-					walk(b.Succs[0])
-				} else {
-					walk(b.Succs[1])
-				}
-				return
-			}
-		}
-		for _, s := range b.Succs {
-			walk(s)
-		}
-	}
-	walk(f.Blocks[0])
-	return rets
-}
-
-// c04OnlyLoadsAndFields: the local is written exactly once as a whole and otherwise only read (loads, field reads).
-func c04OnlyLoadsAndFields(al *ssa.Alloc) bool {
-	for _, ref := range *al.Referrers() {
-		switch x := ref.(type) {
-		case *ssa.Store:
-			if x.Addr != ssa.Value(al) {
-				return false
-			}
-		case *ssa.UnOp:
-		case *ssa.FieldAddr:
-			for _, r2 := range *x.Referrers() {
-				if u, ok := r2.(*ssa.UnOp); !ok || u.Op != token.MUL {
-					return false
-				}
-			}
-		case *ssa.DebugRef:
-		default:
-			return false
-		}
-	}
-	return true
-}
-
-// firstCallReturns decides that the first call of the predicate closure returns the constant want.
+// firstCallReturns decides that the first call of the predicate closure f returns the constant want: f is
+// evaluated on every path under the assumption that a map held in Run's state has no entry for the looked-up
+// key, with the given lower bounds for parameters.
 func (r *c04Run) firstCallReturns(key string, f *ssa.Function, paramMin map[*ssa.Parameter]int64, want bool, broken string) {
-	rets := r.firstCall(f, paramMin)
-	ok, why := len(rets) > 0, "no return reachable"
-	for _, ret := range rets {
-		k, isK := c02ConstBool(ret.Results[0])
-		if len(ret.Results) != 1 || !isK {
-			r.c.Unsure(key, posOf(ret), "the predicate returns a computed value; its first-call result is not decided")
+	x := c04NewExec(c04Cfg{root: f, emptyMaps: true, paramLo: paramMin})
+	trs := x.run()
+	if x.err != "" {
+		r.c.Unsure(key, f.Pos(), "the predicate could not be evaluated: "+x.err)
+		return
+	}
+	n := 0
+	for _, tr := range trs {
+		if tr.exit != "ret" {
+			continue
+		}
+		n++
+		if len(tr.ret) != 1 {
+			r.c.Unsure(key, f.Pos(), "the predicate does not return one value")
+			return
+		}
+		k, isK := tr.ret[0].isBool()
+		if !isK {
+			r.c.Unsure(key, f.Pos(), "the predicate returns a value that is not decided by its first-call state ("+tr.ret[0].k+")")
 			return
 		}
 		if k != want {
-			ok, why = false, fmt.Sprintf("with no entry recorded for the key the predicate can return %v at %s: %s", k, r.c.P.Pos(posOf(ret)), broken)
+			r.c.Check(key, f.Pos(), false, fmt.Sprintf("with no entry recorded for the key the predicate can return %v [%s]: %s", k, tr.path(), broken))
+			return
 		}
 	}
-	r.c.Check(key, f.Pos(), ok, why)
+	r.c.Check(key, f.Pos(), n > 0, "no return reachable")
 }
 
 // ---------------------------------------------------------------------------------------------
@@ -928,7 +575,7 @@ func (r *c04Run) firstCallReturns(key string, f *ssa.Function, paramMin map[*ssa
 func c04(c *rt.Ctx) {
 	c.Rule("T1", 15, func() { c04T1(c04NewRun(c)) })
 	c.Rule("T2", 17, func() { c04T2(c04NewRun(c)) })
-	c.Rule("T3", 2, func() { c04T3(c04NewRun(c)) })
+	c.Rule("T3", 3, func() { c04T3(c04NewRun(c)) })
 	c.Rule("T4", 4, func() { c04T4(c04NewRun(c)) })
 	c.Rule("T5", 3, func() { c04T5(c04NewRun(c)) })
 	c.Rule("T6", 10, func() { c04T6(c04NewRun(c)) })
@@ -938,78 +585,115 @@ func c04(c *rt.Ctx) {
 func c04T1(r *c04Run) {
 	c := r.c
 	r.needTimer()
-	done := map[*ssa.Call]bool{}
 	// the loop is entered with a timer armed for the current round
-	for i, pred := range r.hdr.Preds {
-		if r.loop.Body[pred] {
-			continue
+	starts := []*c04Trace{}
+	for _, tr := range r.pre {
+		if tr.exit == "stop" {
+			starts = append(starts, tr)
 		}
-		e, _ := r.timerPhi.Edges[i].(*ssa.Extract)
-		var n *ssa.Call
-		if e != nil && e.Index == 0 {
-			if call, ok := e.Tuple.(*ssa.Call); ok && c04FieldCall(&call.Call, "Definition.NewTimer") {
-				n = call
+	}
+	startTimer := func(tr *c04Trace) *c04Ev {
+		for _, i := range tr.calls(c04NewTimer) {
+			if e := tr.evs[i]; tr.same(tr.stop.args[r.timerK], c04S("ext#0", e.res)) {
+				return e
 			}
 		}
-		if n == nil {
-			c.Bad("Run start NewTimer→timerChan", c04BlockPos(pred), "the event loop is entered without a running round timer: a silent leader in round 1 is never timed out")
+		return nil
+	}
+	r.forall("Run start NewTimer→timerChan", r.sel.Pos(), starts, func(tr *c04Trace) (bool, string) {
+		return startTimer(tr) != nil, "the event loop is entered without a running round timer: a silent leader in round 1 is never timed out"
+	})
+	r.forall("Run start NewTimer(round)", r.sel.Pos(), starts, func(tr *c04Trace) (bool, string) {
+		e := startTimer(tr)
+		if e == nil || len(e.args) != 1 {
+			return false, "no timer is running when the loop is entered"
+		}
+		return tr.same(e.args[0], r.finalRound(tr)), "the first timer is not created for the round the instance starts in"
+	})
+	// the round-changing closures really set the round
+	nStores, advancers := r.roundStores()
+	if nStores == 0 {
+		c.Bad("Run round-changing closure sets round", r.roundAl.Pos(), "nothing inside the event loop ever stores a new value into the round state: no timeout or message can move the instance to the next round")
+	}
+	for _, f := range advancers {
+		x := c04NewExec(c04Cfg{root: f, isEvent: c04IsEvent})
+		trs := x.run()
+		if x.err != "" {
+			c.Unsure("Run round-changing closure sets round", f.Pos(), x.err)
 			continue
 		}
-		r.timerChecks("Run start", n, done)
-	}
-	// the round-changing closure really sets the round
-	if len(r.advances) == 0 {
-		c.Bad("Run round-changing closure sets round", r.roundCell.Pos(), "nothing inside the event loop ever stores a new value into the round state: no timeout or message can move the instance to the next round")
-	}
-	for _, f := range r.advancers {
-		var p *ssa.Parameter
-		for _, in := range an.Instrs(f, false) {
-			if st, ok := in.(*ssa.Store); ok && r.cellAddr(st.Addr) == r.roundCell {
-				p, _ = st.Val.(*ssa.Parameter)
+		addr := x.addrFor(r.roundAl, -1, r.roundPath)
+		initial := x.initOf(addr)
+		final := func(tr *c04Trace) *c04T {
+			if t, has := tr.mem[addr.k]; has {
+				return t
 			}
+			return initial
 		}
-		w := c04Walk{
-			effect: func(in ssa.Instruction) bool {
-				st, ok := in.(*ssa.Store)
-				return ok && r.cellAddr(st.Addr) == r.roundCell
-			},
-			prune: func(b *ssa.BasicBlock, succ int) bool { // `round == newRound`: nothing to do
-				iff := c04If(b)
-				if iff == nil {
-					return false
+		ok, why := false, "the closure does not store one of its parameters into the round state"
+		if len(f.Params) == 0 {
+			ok = true
+			for _, tr := range trs {
+				if tr.exit == "ret" && final(tr).k == initial.k {
+					ok, why = false, "the closure can return without changing the round; path ["+tr.path()+"]"
 				}
-				eq, ok := c04EqEdge(iff, func(v ssa.Value) bool { return r.isRoundLoad(v) != nil }, func(v ssa.Value) bool { return v == ssa.Value(p) })
-				return ok && succ == eq
-			},
+			}
 		}
-		path, esc := w.from(f.Blocks[0], 0)
-		c.Check("Run round-changing closure sets round", f.Pos(), !esc,
-			"the closure can return without storing the new round although it differs from the current one; path "+an.PathString(c.P, path))
+		for _, p := range f.Params {
+			pt := x.static(nil, nil, p)
+			good := true
+			for _, tr := range trs {
+				if tr.exit == "ret" && !tr.same(final(tr), pt) {
+					good = false
+					if types.Identical(p.Type(), r.roundInitType()) {
+						why = "the closure can return without storing the new round although it differs from the current one; path [" + tr.path() + "]"
+					}
+				}
+			}
+			if good {
+				ok = true
+			}
+		}
+		c.Check("Run round-changing closure sets round", f.Pos(), ok, why)
+	}
+	if len(advancers) == 0 && nStores > 0 {
+		c.Good("Run round-changing closure sets round", r.roundAl.Pos(), "the round is assigned in Run itself")
 	}
 	// timer case
-	starts := r.stateStart(r.timerK)
-	if len(starts) == 0 {
-		c.Bail("Run: no branch for the timer case of the select")
+	var timer []*c04Trace
+	for _, tr := range c04ActOf(r.its) {
+		if r.inState(tr, r.timerK) {
+			timer = append(timer, tr)
+		}
 	}
-	for _, s := range starts {
-		r.timeoutSeq("Run timer case", s, r.roundPlusOne, done)
-	}
+	r.timeoutSeq("Run timer case", r.sel.Pos(), timer, func(tr *c04Trace) int {
+		return tr.decIndex(c04Eq(r.idx(tr), c04Int(int64(r.timerK))), true)
+	}, r.plusOne)
 	// f+1 higher ROUND-CHANGEs
-	for _, s := range r.ruleStart("UponFPlus1RoundChanges") {
-		r.timeoutSeq("Run UponFPlus1RoundChanges", s, func(v ssa.Value) (bool, string) {
-			call := c02Static(v, "nextMinRound")
-			if call == nil || len(call.Call.Args) != 3 {
-				return false, "the new round is not nextMinRound(d, justification, round)"
+	r.timeoutSeq("Run UponFPlus1RoundChanges", r.sel.Pos(), c04ActOf(r.ruleTraces("UponFPlus1RoundChanges")), func(tr *c04Trace) int {
+		return r.ruleStartIdx(tr, "UponFPlus1RoundChanges")
+	}, func(tr *c04Trace, f, r0 *c04T) (bool, string) {
+		_, _, just := r.cls(tr)
+		why := "the new round is not nextMinRound(d, justification, round)"
+		for _, u := range tr.equals(f) {
+			if !u.is("call:"+c04NextMin) || len(u.args) != 3 {
+				continue
 			}
-			if call.Call.Args[1] != r.justV {
-				return false, "nextMinRound is not applied to the f+1 ROUND-CHANGEs returned by classify"
+			if !tr.same(u.args[1], just) {
+				why = "nextMinRound is not applied to the f+1 ROUND-CHANGEs returned by classify"
+				continue
 			}
-			if r.isRoundLoad(call.Call.Args[2]) == nil {
-				return false, "nextMinRound is not given the current round"
+			if !tr.same(u.args[2], r0) {
+				why = "nextMinRound is not given the current round"
+				continue
 			}
 			return true, ""
-		}, done)
-	}
+		}
+		if c04HasUniq(f) {
+			return false, "?the new round is computed in a way that is not followed (" + f.k + ")"
+		}
+		return false, why
+	})
 }
 
 // c04TimerParam returns the index of the unique `<-chan time.Time` parameter.
@@ -1030,486 +714,657 @@ func c04TimerParam(c *rt.Ctx, f *ssa.Function) int {
 	return idx
 }
 
-func c04GlobalLoad(v ssa.Value) *ssa.Global {
-	ld, ok := an.Unwrap(v).(*ssa.UnOp)
-	if !ok || ld.Op != token.MUL {
-		return nil
-	}
-	g, _ := ld.X.(*ssa.Global)
-	return g
-}
-
 // T2 — justified PRE-PREPARE.
 func c04T2(r *c04Run) {
 	c := r.c
 	r.needTimer()
-	done := map[*ssa.Call]bool{}
 	cmpFn := c.Fn(c02P + ".compare")
 	awaitFn := c.Fn(c02P + ".awaitCompare")
 	cmpT, awaitT := c04TimerParam(c, cmpFn), c04TimerParam(c, awaitFn)
 
 	// (a) awaitCompare reports an expired timer with one sentinel error
-	var timeoutErr *ssa.Global
+	timeoutErr := ""
 	{
-		var sel *ssa.Select
-		k := -1
-		for _, in := range an.Instrs(awaitFn, false) {
-			s, ok := in.(*ssa.Select)
-			if !ok {
-				continue
-			}
-			for i, st := range s.States {
-				if st.Dir == types.RecvOnly && st.Chan == ssa.Value(awaitFn.Params[awaitT]) {
-					if sel != nil {
-						c.Bail("awaitCompare: several selects on the timer channel")
+		key := "awaitCompare timer case→timeout error"
+		x := c04NewExec(c04Cfg{root: awaitFn})
+		trs := x.run()
+		if x.err != "" {
+			c.Bail("awaitCompare: %s", x.err)
+		}
+		pt := x.static(nil, nil, awaitFn.Params[awaitT])
+		// the selects of awaitCompare that wait on the timer it was given
+		type wait struct {
+			sel *ssa.Select
+			k   int
+		}
+		var waits []wait
+		nested := false
+		for _, tr := range trs {
+			for _, e := range tr.evs {
+				if e.kind != "select" || e.res == nil {
+					continue
+				}
+				sel := e.in.(*ssa.Select)
+				for k, st := range sel.States {
+					if st.Dir != types.RecvOnly || e.args[k].k != pt.k {
+						continue
 					}
-					sel, k = s, i
+					if sel.Parent() != awaitFn {
+						nested = true
+						continue
+					}
+					dup := false
+					for _, w := range waits {
+						dup = dup || (w.sel == sel && w.k == k)
+					}
+					if !dup {
+						waits = append(waits, wait{sel, k})
+					}
 				}
 			}
 		}
-		if sel == nil {
-			c.Bad("awaitCompare timer case→timeout error", awaitFn.Pos(), "awaitCompare never waits on the round timer: a comparison waiting for local data blocks the consensus loop for ever")
-		} else {
-			idxV := c04Extract(sel, 0)
-			var hdr *ssa.BasicBlock
-			if l := an.InnermostLoop(awaitFn, sel.Block()); l != nil {
-				hdr = l.Header
+		switch {
+		case len(waits) == 0 && nested:
+			c.Unsure(key, awaitFn.Pos(), "the round timer is waited on inside a helper of awaitCompare")
+		case len(waits) == 0:
+			c.Bad(key, awaitFn.Pos(), "awaitCompare never waits on the round timer: a comparison waiting for local data blocks the consensus loop for ever")
+		}
+		for _, w := range waits {
+			// every path from this select taking the timer case ends awaitCompare with the sentinel
+			wx := c04NewExec(c04Cfg{root: awaitFn, stop: w.sel, startB: w.sel.Block(), startI: c04Idx(w.sel)})
+			wtrs := wx.run()
+			if wx.err != "" {
+				c.Bail("awaitCompare: %s", wx.err)
 			}
-			n := 0
-			for _, cd := range an.CondsOn(awaitFn, idxV) {
-				if kk, ok := an.ConstInt(cd.Other); !ok || kk != int64(k) || cd.Op != token.EQL {
+			good, why, n := true, "", 0
+			for _, tr := range wtrs {
+				if len(tr.evs) == 0 || tr.evs[0].kind != "select" || !tr.has(c04Eq(c04S("ext#0", tr.evs[0].res), c04Int(int64(w.k))), true) {
 					continue
 				}
 				n++
-				good, why := true, ""
-				w := c04Walk{stop: hdr, retEsc: func(ret *ssa.Return) bool {
-					g := c04GlobalLoad(ret.Results[len(ret.Results)-1])
-					if g == nil || (timeoutErr != nil && g != timeoutErr) {
-						return true
+				g := ""
+				if tr.exit == "ret" && len(tr.ret) > 0 {
+					if last := tr.ret[len(tr.ret)-1]; last.kind == 's' && strings.HasPrefix(last.op, "gload:") {
+						g = last.k
 					}
-					timeoutErr = g
-					return false
-				}}
-				if path, esc := w.from(cd.Succ(true), 0); esc {
-					good, why = false, "an expired round timer does not end the wait with the timeout sentinel error; path "+an.PathString(c.P, path)
 				}
-				c.Check("awaitCompare timer case→timeout error", c04BlockPos(cd.Succ(true)), good, why)
+				switch {
+				case tr.exit != "ret":
+					good, why = false, "an expired round timer does not end the wait: awaitCompare keeps waiting; path ["+tr.path()+"]"
+				case g == "" || (timeoutErr != "" && g != timeoutErr):
+					good, why = false, "an expired round timer does not end the wait with the (single) timeout sentinel error; path ["+tr.path()+"]"
+				default:
+					timeoutErr = g
+				}
 			}
 			if n == 0 {
-				c.Bail("awaitCompare: no branch for the timer case")
+				c.Bail("awaitCompare: no path takes the timer case")
 			}
+			c.Check(key, w.sel.Pos(), good, why)
 		}
 	}
 	// (b) compare hands its timer to awaitCompare and returns its verdict
 	{
-		call, _ := c.OneCall(cmpFn, func(cc *ssa.CallCommon) bool { return c02Callee(cc) == c02P+".awaitCompare" }, "awaitCompare", false).(*ssa.Call)
-		if call == nil {
-			c.Bail("compare: awaitCompare is deferred or spawned")
+		x := c04NewExec(c04Cfg{root: cmpFn})
+		trs := x.run()
+		if x.err != "" {
+			c.Bail("compare: %s", x.err)
 		}
-		c.Check("compare→awaitCompare timer", call.Pos(), call.Call.Args[awaitT] == ssa.Value(cmpFn.Params[cmpT]),
-			"compare does not wait on the round timer it was given")
-		errV := c04Extract(call, 1)
-		good := errV != nil
-		for _, ret := range an.Returns(cmpFn) {
-			v := ret.Results[len(ret.Results)-1]
-			if v == errV {
+		pt := x.static(nil, nil, cmpFn.Params[cmpT])
+		n, okTimer, okRet := 0, true, true
+		for _, tr := range trs {
+			if tr.exit != "ret" {
 				continue
 			}
-			var al *ssa.Alloc
-			if ld, ok := v.(*ssa.UnOp); ok && ld.Op == token.MUL {
-				al, _ = ld.X.(*ssa.Alloc)
+			is := tr.calls(c04Await)
+			if len(is) != 1 {
+				c.Bail("compare: expected exactly one awaitCompare call on every path")
 			}
-			if al == nil {
-				good = false
-				continue
+			n++
+			e := tr.evs[is[0]]
+			if awaitT >= len(e.args) || e.args[awaitT].k != pt.k {
+				okTimer = false
 			}
-			for _, ref := range *al.Referrers() {
-				if st, ok := ref.(*ssa.Store); ok && st.Addr == ssa.Value(al) && st.Val != errV {
-					good = false
-				}
+			if len(tr.ret) == 0 || !tr.same(tr.ret[len(tr.ret)-1], c04S("ext#1", e.res)) {
+				okRet = false
 			}
 		}
-		c.Check("compare returns awaitCompare verdict", call.Pos(), good, "compare does not return the error produced by awaitCompare: a timeout is not reported to Run")
+		if n == 0 {
+			c.Bail("compare: no returning path")
+		}
+		c.Check("compare→awaitCompare timer", cmpFn.Pos(), okTimer, "compare does not wait on the round timer it was given")
+		c.Check("compare returns awaitCompare verdict", cmpFn.Pos(), okRet, "compare does not return the error produced by awaitCompare: a timeout is not reported to Run")
 	}
 
-	for _, start := range r.ruleStart("UponJustifiedPrePrepare") {
-		region := "Run UponJustifiedPrePrepare"
-		reach := r.fwd(start)
-		var cmp *ssa.Call
-		for _, in := range an.Instrs(r.fn, false) {
-			if call, ok := in.(*ssa.Call); ok && c02Callee(&call.Call) == c02P+".compare" && reach[call.Block()] {
-				if cmp != nil {
-					c.Bail("Run: several compare calls in the pre-prepare branch")
+	region := "Run UponJustifiedPrePrepare"
+	all := r.ruleTraces("UponJustifiedPrePrepare")
+	pp := c04LiveOf(all)
+	if len(pp) == 0 {
+		c.Bail("Run: no path handles UponJustifiedPrePrepare")
+	}
+	pos := r.sel.Pos()
+	type info struct {
+		i0, ic int
+		cmp    *c04Ev
+		nts    []int // NewTimer events between the rule decision and compare
+		errV   *c04T
+	}
+	get := func(tr *c04Trace) info {
+		n := info{i0: r.ruleStartIdx(tr, "UponJustifiedPrePrepare"), ic: -1}
+		for _, i := range tr.calls(c04Compare) {
+			if i > n.i0 {
+				n.ic, n.cmp = i, tr.evs[i]
+				n.errV = c04S("ext#1", n.cmp.res)
+				break
+			}
+		}
+		for _, i := range tr.calls(c04NewTimer) {
+			if i > n.i0 && (n.ic < 0 || i < n.ic) {
+				n.nts = append(n.nts, i)
+			}
+		}
+		return n
+	}
+	r.forall(region+" round:=msg.Round()", pos, pp, func(tr *c04Trace) (bool, string) {
+		n := get(tr)
+		at := len(tr.evs)
+		if n.ic >= 0 {
+			at = n.ic
+		}
+		return tr.same(r.roundAt(tr, at), r.msgCall(tr, "Round")), "the branch does not move to the round of the justified PRE-PREPARE"
+	})
+	r.forall(region+" round:=msg.Round() before compare", pos, pp, func(tr *c04Trace) (bool, string) {
+		n := get(tr)
+		if n.cmp == nil {
+			return false, "the justified PRE-PREPARE is not compared with the local value"
+		}
+		return tr.same(r.roundAt(tr, n.ic), r.msgCall(tr, "Round")), "the round is not set to msg.Round() before the value comparison starts"
+	})
+	r.forall(region+" compare waits on restarted timer", pos, pp, func(tr *c04Trace) (bool, string) {
+		n := get(tr)
+		if n.cmp != nil && cmpT < len(n.cmp.args) {
+			for _, i := range n.nts {
+				if tr.same(n.cmp.args[cmpT], c04S("ext#0", tr.evs[i].res)) {
+					return true, ""
 				}
-				cmp = call
 			}
 		}
-		if cmp == nil {
-			c.Bail("Run: no compare call in the pre-prepare branch")
-		}
-		// round := msg.Round() before anything else
-		msgRound := func(in ssa.Instruction) bool {
-			for _, a := range r.advances {
-				if a.in == in && c02IsMsgCallOn(a.newRound, "Round", r.recvMsg) {
-					return true
-				}
-			}
-			return false
-		}
-		r.check(region+" round:=msg.Round()", start, 0, c04BlockPos(start), c04Walk{effect: func(in ssa.Instruction) bool { return msgRound(in) || in == ssa.Instruction(cmp) }},
-			"the branch does not move to the round of the justified PRE-PREPARE")
-		var adv ssa.Instruction
-		for _, a := range r.advances {
-			if msgRound(a.in) && reach[a.in.Block()] && r.after(a.in, cmp) {
-				adv = a.in
+		return false, "compare is not given the channel of a timer started in this branch: waiting for local data is not bounded by the round timeout"
+	})
+	r.forall(region+"→NewTimer", pos, pp, func(tr *c04Trace) (bool, string) {
+		return len(get(tr).nts) > 0, "the round timer is not restarted for the round of the justified PRE-PREPARE"
+	})
+	r.forall(region+" NewTimer after round:=msg.Round()", pos, pp, func(tr *c04Trace) (bool, string) {
+		for _, i := range get(tr).nts {
+			if !tr.same(r.roundAt(tr, i), r.msgCall(tr, "Round")) {
+				return false, "the timer is started before the round is moved to msg.Round()"
 			}
 		}
-		c.Check(region+" round:=msg.Round() before compare", cmp.Pos(), adv != nil, "the round is not set to msg.Round() before the value comparison starts")
-		// timer restarted, and compare waits on the restarted timer
-		var n *ssa.Call
-		if e, ok := cmp.Call.Args[cmpT].(*ssa.Extract); ok && e.Index == 0 {
-			if call, ok := e.Tuple.(*ssa.Call); ok && c04FieldCall(&call.Call, "Definition.NewTimer") && reach[call.Block()] {
-				n = call
+		return true, ""
+	})
+	r.forall(region+" NewTimer(round)", pos, pp, func(tr *c04Trace) (bool, string) {
+		for _, i := range get(tr).nts {
+			if e := tr.evs[i]; len(e.args) != 1 || !tr.same(e.args[0], r.roundAt(tr, i)) {
+				return false, "the timer is not created for the current round (argument is neither the round state nor the value just stored into it)"
 			}
 		}
-		c.Check(region+" compare waits on restarted timer", cmp.Pos(), n != nil,
-			"compare is not given the channel of a timer started in this branch: waiting for local data is not bounded by the round timeout")
-		r.check(region+"→NewTimer", start, 0, c04BlockPos(start), c04Walk{effect: func(in ssa.Instruction) bool {
-			call, ok := in.(*ssa.Call)
-			return ok && c04FieldCall(&call.Call, "Definition.NewTimer")
-		}}, "the round timer is not restarted for the round of the justified PRE-PREPARE")
-		for _, m := range r.newTimers {
-			if reach[m.Block()] && r.after(m, cmp) {
-				ok := adv != nil && r.after(adv, m)
-				c.Check(region+" NewTimer after round:=msg.Round()", m.Pos(), ok, "the timer is started before the round is moved to msg.Round()")
-				r.timerChecks(region, m, done)
-			}
+		return true, ""
+	})
+	r.forall(region+" NewTimer→timerChan", pos, pp, func(tr *c04Trace) (bool, string) {
+		if tr.exit != "stop" {
+			return true, ""
 		}
-		// success → PREPARE
-		errV := c04Extract(cmp, 1)
-		if errV == nil {
-			c.Bad(region+" compare ok→PREPARE", cmp.Pos(), "the verdict of compare is discarded")
+		is := tr.calls(c04NewTimer)
+		if len(is) == 0 {
+			return false, "no timer is started in this branch"
+		}
+		return tr.same(tr.stop.args[r.timerK], c04S("ext#0", tr.evs[is[len(is)-1]].res)),
+			"the channel of the new timer is not what the next select waits on (a stale or nil timer channel is kept): the new round never times out"
+	})
+	// success → PREPARE
+	var okTr []*c04Trace
+	for _, tr := range pp {
+		n := get(tr)
+		if n.cmp == nil {
 			continue
 		}
-		r.check(region+" compare ok→PREPARE", cmp.Block(), c04Idx(cmp)+1, cmp.Pos(), c04Walk{
-			effect: func(in ssa.Instruction) bool { return r.sendAt(r.sends, in, "MsgPrepare") != nil },
-			prune: func(b *ssa.BasicBlock, succ int) bool { // the err != nil edge
-				iff := c04If(b)
-				if iff == nil {
-					return false
-				}
-				eq, ok := c04EqEdge(iff, func(v ssa.Value) bool { return v == errV }, an.IsNilConst)
-				return ok && succ == 1-eq
-			},
-		}, "a successful comparison does not lead to a PREPARE broadcast")
-		// timeout → round-timeout sequence
-		nT := 0
-		for _, in := range an.Instrs(r.fn, false) {
-			call, ok := in.(*ssa.Call)
-			if !ok || !reach[call.Block()] || call.Call.IsInvoke() || call.Call.StaticCallee() == nil || len(call.Call.Args) < 2 {
-				continue
-			}
-			if name := an.CalleeName(&call.Call); name != "errors.Is" && !strings.HasSuffix(name, "/errors.Is") {
-				continue
-			}
-			if call.Call.Args[0] != errV || timeoutErr == nil || c04GlobalLoad(call.Call.Args[1]) != timeoutErr {
-				continue
-			}
-			iffs := []*ssa.If{}
-			for _, b := range r.fn.Blocks {
-				if iff := c04If(b); iff != nil {
-					if _, ok := c04BoolEdge(iff, call, true); ok {
-						iffs = append(iffs, iff)
-					}
-				}
-			}
-			for _, iff := range iffs {
-				e, _ := c04BoolEdge(iff, call, true)
-				nT++
-				r.timeoutSeq("Run compare-timeout", iff.Block().Succs[e], r.roundPlusOne, done)
+		cons := tr.consistent(c04Lit{c04Eq(n.errV, c04Nil), true})
+		for _, e := range tr.evs {
+			if e.kind == "dec" && e.truth && c04IsErrIs(e.val, n.errV) != nil {
+				cons = false
 			}
 		}
-		if nT == 0 {
-			c.Bad("Run compare-timeout round advance", cmp.Pos(),
-				"no branch of the pre-prepare handler tests compare's error against the sentinel awaitCompare returns when the round timer expires: a round that times out inside compare is never changed")
+		if cons {
+			okTr = append(okTr, tr)
 		}
 	}
+	r.forall(region+" compare ok→PREPARE", pos, okTr, func(tr *c04Trace) (bool, string) {
+		n := get(tr)
+		for _, e := range tr.evs[n.ic:] {
+			if r.bcast(e, "MsgPrepare") && tr.same(e.args[4], r.msgCall(tr, "Round")) {
+				return true, ""
+			}
+		}
+		return false, "a successful comparison does not lead to a PREPARE broadcast"
+	})
+	// timeout → round-timeout sequence
+	var toTr []*c04Trace
+	tested := false
+	toIdx := func(tr *c04Trace) int {
+		n := get(tr)
+		if n.cmp == nil || timeoutErr == "" {
+			return -1
+		}
+		for i, e := range tr.evs {
+			if e.kind == "dec" && e.truth && i > n.ic {
+				if g := c04IsErrIs(e.val, n.errV); g != nil && g.k == timeoutErr {
+					return i
+				}
+			}
+		}
+		return -1
+	}
+	for _, tr := range all {
+		if toIdx(tr) >= 0 {
+			tested = true
+			if c04Live(tr) || c04Aborts(tr) {
+				toTr = append(toTr, tr)
+			}
+		}
+	}
+	if !tested {
+		c.Bad("Run compare-timeout round advance", pos,
+			"no branch of the pre-prepare handler tests compare's error against the sentinel awaitCompare returns when the round timer expires: a round that times out inside compare is never changed")
+	} else {
+		r.timeoutSeq("Run compare-timeout", pos, toTr, toIdx, r.plusOne)
+	}
+}
+
+// c04IsErrIs: t is errors.Is(errV, g) or errV == g; returns g.
+func c04IsErrIs(t, errV *c04T) *c04T {
+	if t.kind != 's' {
+		return nil
+	}
+	if strings.HasPrefix(t.op, "call:static:") && (strings.HasSuffix(t.op, "/errors.Is") || t.op == "call:static:errors.Is") && len(t.args) == 2 && t.args[0].k == errV.k {
+		return t.args[1]
+	}
+	if t.is("eq") {
+		if t.args[0].k == errV.k && t.args[1].kind != 'n' {
+			return t.args[1]
+		}
+		if t.args[1].k == errV.k && t.args[0].kind != 'n' {
+			return t.args[0]
+		}
+	}
+	return nil
 }
 
 // T3 — quorum events perform their action.
 func c04T3(r *c04Run) {
-	for _, s := range r.ruleStart("UponQuorumPrepares") {
-		r.check("Run UponQuorumPrepares→COMMIT", s, 0, c04BlockPos(s), c04Walk{effect: func(in ssa.Instruction) bool {
-			return r.sendAt(r.sends, in, "MsgCommit") != nil
-		}}, "a quorum of PREPAREs does not lead to a COMMIT broadcast: no member can collect a quorum of COMMITs")
-	}
-	seen := map[*ssa.BasicBlock]bool{}
-	for _, name := range []string{"UponQuorumCommits", "UponJustifiedDecided"} {
-		for _, s := range r.ruleStart(name) {
-			if seen[s] {
-				continue
+	pos := r.sel.Pos()
+	r.forall("Run UponQuorumPrepares→COMMIT", pos, c04ActOf(r.ruleTraces("UponQuorumPrepares")), func(tr *c04Trace) (bool, string) {
+		i0 := r.ruleStartIdx(tr, "UponQuorumPrepares")
+		for _, e := range tr.evs[i0:] {
+			if r.bcast(e, "MsgCommit") {
+				return true, ""
 			}
-			seen[s] = true
-			r.check("Run "+name+"→Decide", s, 0, c04BlockPos(s), c04Walk{effect: func(in ssa.Instruction) bool {
-				call, ok := in.(*ssa.Call)
-				return ok && c04FieldCall(&call.Call, "Definition.Decide")
-			}}, "a quorum of COMMITs / a justified DECIDED does not lead to d.Decide: the member never decides")
 		}
+		return false, "a quorum of PREPAREs does not lead to a COMMIT broadcast: no member can collect a quorum of COMMITs"
+	})
+	for _, name := range []string{"UponQuorumCommits", "UponJustifiedDecided"} {
+		r.forall("Run "+name+"→Decide", pos, c04ActOf(r.ruleTraces(name)), func(tr *c04Trace) (bool, string) {
+			i0 := r.ruleStartIdx(tr, name)
+			for _, i := range tr.calls(c04Decide) {
+				if i > i0 {
+					return true, ""
+				}
+			}
+			return false, "a quorum of COMMITs / a justified DECIDED does not lead to d.Decide: the member never decides"
+		})
 	}
 }
 
 // T4 — proposals: PRE-PREPARE or cached justification, flushed when the input value arrives.
 func c04T4(r *c04Run) {
 	c := r.c
-	// the propose-or-cache closure: stores its parameter into a state cell of Run
-	var poc *ssa.Function
-	var cache *ssa.Alloc
-	for _, f := range r.all {
-		if f == r.fn || len(f.Params) != 1 || !types.Identical(f.Params[0].Type(), r.justV.Type()) {
-			continue
-		}
+	pos := r.sel.Pos()
+	// the input-value case of the select: it receives a value of the type broadcasts carry
+	var vt types.Type
+	for _, f := range r.x.family {
 		for _, in := range an.Instrs(f, false) {
-			if st, ok := in.(*ssa.Store); ok && st.Val == ssa.Value(f.Params[0]) && r.cellAddr(st.Addr) != nil {
-				if poc != nil && poc != f {
-					c.Bail("Run: several closures cache a justification")
+			if call, ok := in.(*ssa.Call); ok && r.x.callName(&call.Call) == c04Broadcast {
+				vt = call.Call.Args[5].Type()
+			}
+		}
+	}
+	inputK := -1
+	for k, st := range r.sel.States {
+		if ch, ok := st.Chan.Type().Underlying().(*types.Chan); ok && st.Dir == types.RecvOnly && vt != nil && types.Identical(ch.Elem(), vt) {
+			if inputK >= 0 {
+				c.Bail("Run: several select cases receive a value")
+			}
+			inputK = k
+		}
+	}
+	if inputK < 0 {
+		c.Bail("Run: no select case receives the input value")
+	}
+	inputExt := r.recvExtOf(inputK)
+	qrc := c04LiveOf(r.ruleTraces("UponQuorumRoundChanges"))
+	if len(qrc) == 0 {
+		c.Bail("Run: no path handles UponQuorumRoundChanges")
+	}
+	// the cache: the cell of Run that a quorum-round-change path stores classify's justification into
+	cache := ""
+	var cacheInit *c04T
+	for _, tr := range qrc {
+		_, _, just := r.cls(tr)
+		i0 := r.ruleStartIdx(tr, "UponQuorumRoundChanges")
+		for i, e := range tr.evs {
+			if i > i0 && e.kind == "store" && r.isRunState(e.addr) && tr.same(e.val, just) {
+				if cache != "" && cache != e.addr.k {
+					c.Bail("Run: several cells cache a justification")
 				}
-				poc, cache = f, r.cellAddr(st.Addr)
+				cache, cacheInit = e.addr.k, r.x.initOf(e.addr)
 			}
 		}
 	}
-	if poc == nil {
-		// no caching helper: every proposal must be an unconditional broadcast, and nothing needs flushing
-		c.Note("T4: no justification-caching closure found; proposals must broadcast unconditionally")
+	if cache == "" {
+		c.Note("T4: no justification cache found; proposals must broadcast unconditionally")
 	}
-	var input *ssa.Alloc
-	if poc != nil {
-		inner := r.sendsIn(poc, 1)
-		w := c04Walk{effect: func(in ssa.Instruction) bool {
-			if st, ok := in.(*ssa.Store); ok && st.Val == ssa.Value(poc.Params[0]) && r.cellAddr(st.Addr) == cache {
-				return true
-			}
-			if s := r.sendAt(inner, in, "MsgPrePrepare"); s != nil && s.args[8] == ssa.Value(poc.Params[0]) && r.cellOf(s.args[5]) != nil {
-				input = r.cellOf(s.args[5])
-				return true
-			}
-			return false
-		}}
-		path, esc := w.from(poc.Blocks[0], 0)
-		c.Check("Run propose-or-cache closure", poc.Pos(), !esc,
-			"the proposal helper can return without broadcasting PRE-PREPARE for its own input value and without caching the justification; path "+an.PathString(c.P, path))
-	}
-	isPropose := func(just func(ssa.Value) bool) func(ssa.Instruction) bool {
-		return func(in ssa.Instruction) bool {
-			if s := r.sendAt(r.sends, in, "MsgPrePrepare"); s != nil { // unconditional broadcast
-				return just(s.args[8])
-			}
-			if call, ok := in.(*ssa.Call); ok && poc != nil && !call.Call.IsInvoke() && r.closureOf(call.Call.Value) == poc {
-				return just(call.Call.Args[0])
-			}
-			return false
-		}
-	}
-	for _, s := range r.ruleStart("UponQuorumRoundChanges") {
-		r.check("Run UponQuorumRoundChanges→PRE-PREPARE|cache", s, 0, c04BlockPos(s),
-			c04Walk{effect: isPropose(func(v ssa.Value) bool { return v == r.justV })},
-			"a justified quorum of ROUND-CHANGEs at the leader leads neither to a PRE-PREPARE carrying that justification nor to caching it")
-	}
-	// round 1 leader
-	nL := 0
-	for _, in := range an.Instrs(r.fn, false) {
-		call, ok := in.(*ssa.Call)
-		if !ok || !c04FieldCall(&call.Call, "Definition.IsLeader") || r.loop.Body[call.Block()] {
+	// the input cell: where the received input value is kept
+	inputCell := ""
+	for _, tr := range r.its {
+		if !r.inState(tr, inputK) {
 			continue
 		}
-		for _, b := range r.fn.Blocks {
-			iff := c04If(b)
-			if iff == nil {
+		in := c04S("ext#"+strconv.Itoa(inputExt), r.selRes(tr))
+		for _, e := range tr.evs {
+			if e.kind == "store" && r.isRunState(e.addr) && e.val.k == in.k {
+				inputCell = e.addr.k
+			}
+		}
+	}
+	ownValue := func(t *c04T) bool { return inputCell != "" && t.from != nil && t.from.k == inputCell }
+	proposes := func(tr *c04Trace, from int, just *c04T) (found bool, own bool, ownOK bool) {
+		ownOK = true
+		for i, e := range tr.evs {
+			if i <= from || !r.bcast(e, "MsgPrePrepare") {
 				continue
 			}
-			if e, ok := c04BoolEdge(iff, call, true); ok {
-				nL++
-				s := b.Succs[e]
-				r.check("Run start leader→PRE-PREPARE|cache", s, 0, c04BlockPos(s), c04Walk{effect: isPropose(func(ssa.Value) bool { return true })},
-					"the leader of round 1 enters the loop without proposing (or caching the empty justification)")
+			if just != nil && !tr.same(e.args[8], just) {
+				continue
+			}
+			found = true
+			if e.args[5].from != nil {
+				own = true
+				if !ownValue(e.args[5]) {
+					ownOK = false
+				}
+			}
+		}
+		return
+	}
+	cached := func(tr *c04Trace, just *c04T) bool {
+		if cache == "" {
+			return false
+		}
+		t, ok := tr.mem[cache]
+		if !ok {
+			return false
+		}
+		if just == nil {
+			return t.kind != 'n'
+		}
+		return tr.same(t, just)
+	}
+	// leader of round 1
+	var leader []*c04Trace
+	sawLeader := false
+	for _, tr := range r.pre {
+		for _, e := range tr.evs {
+			if e.kind == "dec" && e.truth && e.val.is("call:"+c04IsLeader) {
+				sawLeader = true
+				if c04Live(tr) {
+					leader = append(leader, tr)
+				}
 			}
 		}
 	}
-	if nL == 0 {
+	r.forall("Run propose-or-cache closure", pos, append(append([]*c04Trace{}, qrc...), leader...), func(tr *c04Trace) (bool, string) {
+		_, _, just := r.cls(tr) // nil on the start paths
+		from := -1
+		if just != nil {
+			from = r.ruleStartIdx(tr, "UponQuorumRoundChanges")
+		}
+		found, _, ownOK := proposes(tr, from, nil)
+		if found && !ownOK {
+			return false, "the proposal of the own value does not carry the input value cell the input-value case fills"
+		}
+		if !found && !cached(tr, just) {
+			return false, "the proposal helper can return without broadcasting PRE-PREPARE for its own input value and without caching the justification"
+		}
+		return true, ""
+	})
+	r.forall("Run UponQuorumRoundChanges→PRE-PREPARE|cache", pos, qrc, func(tr *c04Trace) (bool, string) {
+		_, _, just := r.cls(tr)
+		found, _, _ := proposes(tr, r.ruleStartIdx(tr, "UponQuorumRoundChanges"), just)
+		return found || cached(tr, just), "a justified quorum of ROUND-CHANGEs at the leader leads neither to a PRE-PREPARE carrying that justification nor to caching it"
+	})
+	if !sawLeader {
 		c.Bad("Run start leader→PRE-PREPARE|cache", r.fn.Pos(), "Run does not test IsLeader before entering the loop: round 1 has no proposal")
+	} else {
+		r.forall("Run start leader→PRE-PREPARE|cache", pos, leader, func(tr *c04Trace) (bool, string) {
+			found, _, _ := proposes(tr, -1, nil)
+			return found || cached(tr, nil), "the leader of round 1 enters the loop without proposing (or caching the empty justification)"
+		})
 	}
 	// flush of the cached justification when the input value arrives
-	if poc == nil {
+	key := "Run input value→flush cached PRE-PREPARE"
+	if cache == "" {
+		c.Good(key, pos, "no justification is ever cached")
 		return
 	}
-	if input == nil {
-		c.Bail("Run: the input value cell read by the proposal helper was not found")
-	}
-	var inStore *ssa.Store
-	for _, in := range an.Instrs(r.fn, false) {
-		st, ok := in.(*ssa.Store)
-		if !ok || r.cellAddr(st.Addr) != input {
+	var input []*c04Trace
+	for _, tr := range c04LiveOf(r.its) {
+		if !r.inState(tr, inputK) {
 			continue
 		}
-		if e, ok := st.Val.(*ssa.Extract); ok && e.Tuple == ssa.Value(r.sel) && e.Index >= 2 {
-			inStore = st
+		if tr.consistent(c04Lit{c04Eq(cacheInit, c04Nil), false}, c04Lit{c04Eq(c04S("len", cacheInit), c04Int(0)), false}, c04Lit{c04Lt(c04Int(0), c04S("len", cacheInit)), true}) {
+			input = append(input, tr)
 		}
 	}
-	if inStore == nil {
-		c.Bad("Run input value→flush cached PRE-PREPARE", r.sel.Pos(), "no select case receives the input value into the cell the proposal helper reads")
-		return
+	r.forall(key, pos, input, func(tr *c04Trace) (bool, string) {
+		in := c04S("ext#"+strconv.Itoa(inputExt), r.selRes(tr))
+		for _, e := range tr.evs {
+			if r.bcast(e, "MsgPrePrepare") && tr.same(e.args[5], in) && tr.same(e.args[8], cacheInit) {
+				return true, ""
+			}
+		}
+		return false, "when the input value arrives a cached justification is not flushed as PRE-PREPARE(input value, cached justification): the leader's round never gets a proposal"
+	})
+}
+
+// c04Slot is a loop-carried variable of Run as seen at the start of an iteration: a captured cell or a loop phi.
+func c04IsSlot(t *c04T) bool { return t.phi != nil || t.from != nil }
+
+func c04SlotFinal(tr *c04Trace, init *c04T) *c04T {
+	if init.from != nil {
+		return tr.x.load(&c04State{mem: tr.mem, dec: tr.dec}, init.from, nil)
 	}
-	r.check("Run input value→flush cached PRE-PREPARE", inStore.Block(), c04Idx(inStore)+1, posOf(inStore), c04Walk{
-		effect: func(in ssa.Instruction) bool {
-			s := r.sendAt(r.sends, in, "MsgPrePrepare")
-			if s == nil || r.cellOf(s.args[8]) != cache || r.cellOf(s.args[5]) != input {
-				return false
-			}
-			if ld, ok := an.Unwrap(s.args[5]).(*ssa.UnOp); ok && ld.Parent() == r.fn && !r.after(inStore, ld) {
-				return false
-			}
-			return true
-		},
-		prune: func(b *ssa.BasicBlock, succ int) bool { // cache == nil: nothing cached
-			iff := c04If(b)
-			if iff == nil {
-				return false
-			}
-			eq, ok := c04EqEdge(iff, func(v ssa.Value) bool { return r.cellOf(v) == cache }, an.IsNilConst)
-			return ok && succ == eq
-		},
-	}, "when the input value arrives a cached justification is not flushed as PRE-PREPARE(input value, cached justification): the leader's round never gets a proposal")
+	if t, ok := tr.phis[init.k]; ok {
+		return t
+	}
+	return init // not re-assigned on the way to the next select
 }
 
 // T5 — after the decision, lagging peers are answered with DECIDED.
 func c04T5(r *c04Run) {
 	c := r.c
+	pos := r.sel.Pos()
 	key := "Run post-decision ROUND-CHANGE→DECIDED"
-	var ds []*c04Send
-	for i := range r.sends {
-		if n, _ := an.ConstInt(r.sends[i].args[1]); n == r.msgTypes["MsgDecided"] {
-			ds = append(ds, &r.sends[i])
+	var q, qv *c04T
+	nd := 0
+	okCarry, whyCarry := true, ""
+	var carryPos token.Pos
+	for _, tr := range r.its {
+		for _, e := range tr.evs {
+			if !r.bcast(e, "MsgDecided") {
+				continue
+			}
+			nd++
+			carryPos = c04EvPos(e)
+			if !c04IsSlot(e.args[8]) || !c04IsSlot(e.args[5]) {
+				okCarry, whyCarry = false, "the DECIDED resend does not carry the latched commit quorum and value (it carries "+e.args[5].k+", "+e.args[8].k+")"
+				continue
+			}
+			if (q != nil && q.k != e.args[8].k) || (qv != nil && qv.k != e.args[5].k) {
+				c.Bail("Run: DECIDED broadcasts carry different quorum variables")
+			}
+			q, qv = e.args[8], e.args[5]
 		}
 	}
-	if len(ds) == 0 {
+	if nd == 0 {
 		c.Bad(key, r.fn.Pos(), "Run never broadcasts DECIDED: a member that missed the COMMIT quorum is never told the decision")
 		return
 	}
-	hdrPhi := func(v ssa.Value) *ssa.Phi {
-		p, ok := v.(*ssa.Phi)
-		if !ok || p.Block() != r.hdr {
-			return nil
+	if okCarry && q != nil {
+		// the resent state is latched from the deciding quorum and value
+		n := 0
+		for _, name := range []string{"UponQuorumCommits", "UponJustifiedDecided"} {
+			for _, tr := range r.ruleTraces(name) {
+				if tr.exit != "stop" {
+					continue
+				}
+				n++
+				_, _, just := r.cls(tr)
+				if f := c04SlotFinal(tr, q); f == nil || !tr.same(f, just) {
+					okCarry, whyCarry = false, "the state resent as DECIDED is never set from the deciding quorum / value"
+				}
+				if f := c04SlotFinal(tr, qv); f == nil || !tr.same(f, r.msgCall(tr, "Value")) {
+					okCarry, whyCarry = false, "the state resent as DECIDED is never set from the deciding quorum / value"
+				}
+			}
 		}
-		return p
-	}
-	var q *ssa.Phi
-	for _, d := range ds {
-		qc, qv := hdrPhi(d.args[8]), hdrPhi(d.args[5])
-		ok, why := qc != nil && qv != nil, "the DECIDED resend does not carry the latched commit quorum and value"
-		if ok {
-			_, in1 := c02PhiWeb(qc)
-			_, in2 := c02PhiWeb(qv)
-			has1, has2 := false, false
-			for _, v := range in1 {
-				has1 = has1 || v == r.justV
-			}
-			for _, v := range in2 {
-				has2 = has2 || c02IsMsgCallOn(v, "Value", r.recvMsg)
-			}
-			if !has1 || !has2 {
-				ok, why = false, "the state resent as DECIDED is never set from the deciding quorum / value"
-			}
-			if q != nil && q != qc {
-				c.Bail("Run: DECIDED broadcasts carry different quorum variables")
-			}
-			q = qc
+		if n == 0 {
+			c.Bail("Run: no path handles UponQuorumCommits / UponJustifiedDecided")
 		}
-		c.Check("Run DECIDED resend carries qCommit", d.call.Pos(), ok, why)
 	}
-	if q == nil {
+	c.Check("Run DECIDED resend carries qCommit", carryPos, okCarry, whyCarry)
+	if q == nil || !okCarry {
 		return
 	}
-	// the decided edge of len(qCommit) > 0
-	var starts []*ssa.BasicBlock
-	for _, b := range r.fn.Blocks {
-		iff := c04If(b)
-		if iff == nil {
-			continue
+	// a boolean state variable that every deciding path sets to true is accepted as "decided" as well
+	flags := map[string]bool{}
+	for _, tr := range r.its {
+		for _, e := range tr.evs {
+			if e.kind == "dec" && c04IsSlot(e.val) {
+				flags[e.val.k] = true
+			}
 		}
-		cd := c04Decode(iff.Cond)
-		if cd.y == nil {
-			continue
-		}
-		x, y, op := cd.x, cd.y, cd.op
-		if c02LenArg(y) == ssa.Value(q) {
-			x, y, op = y, x, c02Flip(op)
-		}
-		k, isK := an.ConstInt(y)
-		if c02LenArg(x) != ssa.Value(q) || !isK {
-			continue
-		}
-		var truth bool // truth of (len op k) when len > 0
-		switch {
-		case (op == token.GTR || op == token.NEQ) && k == 0, op == token.GEQ && k == 1:
-			truth = true
-		case (op == token.EQL || op == token.LEQ) && k == 0, op == token.LSS && k == 1:
-			truth = false
-		default:
-			continue
-		}
-		starts = append(starts, b.Succs[cd.succ(truth)])
 	}
-	if len(starts) == 0 {
-		c.Bad(key, r.fn.Pos(), "the receive case never tests whether the instance has decided")
-		return
+	for _, tr := range r.its {
+		for _, e := range tr.evs {
+			if e.kind != "dec" || !flags[e.val.k] {
+				continue
+			}
+			for _, name := range []string{"UponQuorumCommits", "UponJustifiedDecided"} {
+				for _, dt := range r.ruleTraces(name) {
+					if dt.exit == "stop" {
+						if b, ok := c04SlotFinal(dt, e.val).isBool(); !ok || !b {
+							delete(flags, e.val.k)
+						}
+					}
+				}
+			}
+		}
 	}
-	isSrc := func(v ssa.Value) bool { return c02IsMsgCallOn(v, "Source", r.recvMsg) }
-	isRnd := func(v ssa.Value) bool { return c02IsMsgCallOn(v, "Round", r.recvMsg) }
-	isProc := func(v ssa.Value) bool { return r.cellOf(v) == r.procCell }
+	// decided paths: those on which the commit quorum was found non-empty
+	nonEmpty := func(tr *c04Trace) (bool, bool) {
+		lq := c04S("len", q)
+		for _, e := range tr.evs {
+			if e.kind != "dec" {
+				continue
+			}
+			switch {
+			case e.val.k == c04Lt(c04Int(0), lq).k:
+				return e.truth, true
+			case e.val.k == c04Eq(lq, c04Int(0)).k, e.val.k == c04Lt(lq, c04Int(1)).k, e.val.k == c04Eq(q, c04Nil).k:
+				return !e.truth, true
+			case flags[e.val.k]:
+				return e.truth, true
+			}
+		}
+		return false, false
+	}
+	var decided []*c04Trace
+	tested := false
 	limiters := map[*ssa.Function]bool{}
-	limiterCall := func(v ssa.Value) *ssa.Function {
-		call, ok := v.(*ssa.Call)
-		if !ok || call.Call.IsInvoke() || len(call.Call.Args) != 2 || !isSrc(call.Call.Args[0]) || !isRnd(call.Call.Args[1]) {
-			return nil
-		}
-		f := r.closureOf(call.Call.Value)
-		if f == nil || f.Signature.Results().Len() != 1 {
-			return nil
-		}
-		if b, ok := f.Signature.Results().At(0).Type().Underlying().(*types.Basic); !ok || b.Kind() != types.Bool {
-			return nil
-		}
-		return f
-	}
-	for _, s := range starts {
-		if !r.loop.Body[s] {
+	for _, tr := range r.its {
+		ne, ok := nonEmpty(tr)
+		if !ok {
 			continue
 		}
-		r.check(key, s, 0, c04BlockPos(s), c04Walk{
-			effect: func(in ssa.Instruction) bool {
-				s := r.sendAt(r.sends, in, "MsgDecided")
-				return s != nil && s.args[8] == ssa.Value(q)
-			},
-			prune: func(b *ssa.BasicBlock, succ int) bool {
-				iff := c04If(b)
-				if iff == nil {
-					return false
+		tested = true
+		if !ne || !c04Live(tr) || !r.inState(tr, r.recvK) {
+			continue
+		}
+		src, typ, rnd := r.msgCall(tr, "Source"), r.msgCall(tr, "Type"), r.msgCall(tr, "Round")
+		// the process id: the source argument of the broadcasts
+		var proc *c04T
+		for _, t2 := range r.its {
+			for _, e := range t2.evs {
+				if e.kind == "call" && e.name == c04Broadcast && len(e.args) == 9 {
+					proc = e.args[3]
 				}
-				if eq, ok := c04EqEdge(iff, isSrc, isProc); ok { // own message
-					return succ == eq
-				}
-				if eq, ok := c04EqEdge(iff, func(v ssa.Value) bool { return c02IsMsgCallOn(v, "Type", r.recvMsg) },
-					func(v ssa.Value) bool { k, ok := an.ConstInt(v); return ok && k == r.msgTypes["MsgRoundChange"] }); ok { // not a ROUND-CHANGE
-					return succ == 1-eq
-				}
-				cd := c04Decode(iff.Cond)
-				if f := limiterCall(cd.x); f != nil && cd.y == nil { // limiter refuses
-					limiters[f] = true
-					return succ == cd.succ(false)
-				}
-				return false
-			},
-		}, "after the decision a ROUND-CHANGE from another member is not (always) answered with the DECIDED message: a member that missed the quorum keeps changing rounds for ever")
+			}
+		}
+		if proc == nil {
+			c.Bail("Run: the process id was not found")
+		}
+		if !tr.consistent(c04Lit{c04Eq(src, proc), false}, c04Lit{c04Eq(typ, c04Int(r.msgTypes["MsgRoundChange"])), true}) {
+			continue
+		}
+		refused := false
+		for _, e := range tr.evs {
+			if (e.kind != "call" && e.kind != "leave") || e.fn == nil || e.fn.Parent() == nil || e.res == nil || len(e.args) != 2 || !tr.same(e.args[0], src) || !tr.same(e.args[1], rnd) {
+				continue
+			}
+			if b, ok := e.fn.Signature.Results().At(0).Type().Underlying().(*types.Basic); e.fn.Signature.Results().Len() != 1 || !ok || b.Kind() != types.Bool {
+				continue
+			}
+			limiters[e.fn] = true
+			if tr.has(e.res, false) {
+				refused = true
+			}
+		}
+		if !refused {
+			decided = append(decided, tr)
+		}
 	}
+	if !tested {
+		c.Unsure(key, r.fn.Pos(), "DECIDED is resent, but the test whether the instance has decided was not recognised")
+		return
+	}
+	r.forall(key, pos, decided, func(tr *c04Trace) (bool, string) {
+		for _, e := range tr.evs {
+			if r.bcast(e, "MsgDecided") && e.args[8].k == q.k && e.args[5].k == qv.k {
+				return true, ""
+			}
+		}
+		// a refusal decided inside an in-package helper that was not followed is not understood
+		msg := r.msg(tr)
+		for _, e := range tr.evs {
+			if e.kind == "dec" && e.val.kind == 's' && strings.HasPrefix(e.val.op, "call:static:"+c02P+".") {
+				for _, a := range e.val.args {
+					if a.k == msg.k || strings.Contains(a.k, "("+msg.k+")") {
+						return false, "?whether the ROUND-CHANGE is answered is decided by the helper " + strings.TrimPrefix(e.val.op, "call:static:") + ", which is not followed"
+					}
+				}
+			}
+		}
+		return false, "after the decision a ROUND-CHANGE from another member is not (always) answered with the DECIDED message: a member that missed the quorum keeps changing rounds for ever"
+	})
 	var fs []*ssa.Function
 	for f := range limiters {
 		fs = append(fs, f)
@@ -1519,26 +1374,149 @@ func c04T5(r *c04Run) {
 		r.firstCallReturns("Run decided-resend limiter first call", f, map[*ssa.Parameter]int64{f.Params[1]: 1}, true,
 			"the first ROUND-CHANGE of a lagging member is refused, so it is never told the decision")
 	}
+	if len(fs) == 0 {
+		c.Good("Run decided-resend limiter first call", pos, "the resend is not rate-limited")
+	}
+}
+
+// c04RuleConsts collects the constants result idx of fn can be, following phis, result slots, the results of
+// in-package static callees handed through and parameters (to the arguments of every in-package call site).
+func c04RuleConsts(fn *ssa.Function, idx int, out map[int64]bool) bool {
+	ok := true
+	vis := map[ssa.Value]bool{}
+	retOf := map[*ssa.Function]map[int]bool{}
+	var walk func(v ssa.Value)
+	results := func(g *ssa.Function, i int) {
+		if retOf[g] == nil {
+			retOf[g] = map[int]bool{}
+		}
+		if retOf[g][i] {
+			return
+		}
+		retOf[g][i] = true
+		for _, ret := range an.Returns(g) {
+			if i < len(ret.Results) {
+				walk(ret.Results[i])
+			}
+		}
+	}
+	local := func(cc *ssa.CallCommon) *ssa.Function {
+		if cc.IsInvoke() || cc.StaticCallee() == nil {
+			return nil
+		}
+		g := an.Orig(cc.StaticCallee())
+		if g.Pkg != fn.Pkg || len(g.Blocks) == 0 {
+			return nil
+		}
+		return g
+	}
+	walk = func(v ssa.Value) {
+		if vis[v] {
+			return
+		}
+		vis[v] = true
+		if len(vis) > 400 {
+			ok = false
+			return
+		}
+		switch a := v.(type) {
+		case *ssa.Const:
+			if k, isK := an.ConstInt(a); isK {
+				out[k] = true
+				return
+			}
+		case *ssa.Phi:
+			for _, e := range a.Edges {
+				walk(e)
+			}
+			return
+		case *ssa.ChangeType:
+			walk(a.X)
+			return
+		case *ssa.Convert:
+			walk(a.X)
+			return
+		case *ssa.UnOp:
+			if al, isAl := a.X.(*ssa.Alloc); isAl && a.Op == token.MUL {
+				n := 0
+				for _, ref := range *al.Referrers() {
+					switch s := ref.(type) {
+					case *ssa.Store:
+						if s.Addr == ssa.Value(al) {
+							n++
+							walk(s.Val)
+						}
+					case *ssa.UnOp, *ssa.DebugRef:
+					default:
+						ok = false
+					}
+				}
+				if n == 0 {
+					out[0] = true
+				}
+				return
+			}
+		case *ssa.Extract:
+			if call, isCall := a.Tuple.(*ssa.Call); isCall {
+				if g := local(&call.Call); g != nil {
+					results(g, a.Index)
+					return
+				}
+			}
+		case *ssa.Call:
+			if g := local(&a.Call); g != nil && g.Signature.Results().Len() == 1 {
+				results(g, 0)
+				return
+			}
+		case *ssa.Parameter:
+			pi, n := -1, 0
+			for i, q := range a.Parent().Params {
+				if q == a {
+					pi = i
+				}
+			}
+			for _, f := range an.PkgFuncs(fn.Pkg) {
+				for _, in := range an.Instrs(f, false) {
+					ci, isCall := in.(ssa.CallInstruction)
+					if !isCall {
+						continue
+					}
+					if g := local(ci.Common()); g == a.Parent() && pi >= 0 && pi < len(ci.Common().Args) {
+						if _, plain := in.(*ssa.Call); !plain {
+							ok = false
+						}
+						n++
+						walk(ci.Common().Args[pi])
+					}
+				}
+			}
+			if n > 0 && a.Parent().Object() != nil && !a.Parent().Object().Exported() {
+				return
+			}
+		}
+		ok = false
+	}
+	results(fn, idx)
+	return ok
 }
 
 // T6 — dispatch is exhaustive and only no-rule / duplicate rules skip it.
 func c04T6(r *c04Run) {
 	c := r.c
+	pos := r.sel.Pos()
 	cl := c.Fn(c02P + ".classify")
 	returned := map[int64]bool{}
-	for _, ret := range an.Returns(cl) {
-		k, ok := an.ConstInt(ret.Results[0])
-		if !ok {
-			c.Unsure("classify result", posOf(ret), "classify returns a computed rule")
-			continue
-		}
-		returned[k] = true
+	if !c04RuleConsts(cl, 0, returned) {
+		c.Unsure("classify result", cl.Pos(), "classify returns a computed rule")
 	}
-	handled := map[int64]bool{}
-	for _, cd := range an.CondsOn(r.fn, r.ruleV) {
-		if k, ok := an.ConstInt(cd.Other); ok && (cd.Op == token.EQL || cd.Op == token.NEQ) {
-			handled[k] = true
+	var withCls []*c04Trace
+	for _, tr := range r.its {
+		if i, _, _ := r.cls(tr); i >= 0 {
+			withCls = append(withCls, tr)
 		}
+	}
+	if len(withCls) == 0 {
+		c.Bail("Run: classify is not called from the event loop")
 	}
 	var ks []int64
 	for k := range returned {
@@ -1550,32 +1528,59 @@ func c04T6(r *c04Run) {
 		if name == "" {
 			name = fmt.Sprint("UponRule#", k)
 		}
-		c.Check("Run dispatch handles "+name, r.classify.Pos(), handled[k],
-			"classify can return "+name+" but Run has no case for it: the event panics the instance (\"bug: invalid rule\") or is dropped")
-	}
-	dups := map[*ssa.Function]bool{}
-	r.check("Run classify→dispatch", r.classify.Block(), c04Idx(r.classify)+1, r.classify.Pos(), c04Walk{
-		retEsc: func(*ssa.Return) bool { return true },
-		prune: func(b *ssa.BasicBlock, succ int) bool {
-			iff := c04If(b)
-			if iff == nil {
-				return false
+		ok, why := true, ""
+		for _, tr := range withCls {
+			_, rule, _ := r.cls(tr)
+			if tr.exit != "panic" {
+				continue
 			}
-			// rule == K: into the case body (or the no-rule skip)
-			if eq, ok := c04EqEdge(iff, func(v ssa.Value) bool { return v == r.ruleV }, func(v ssa.Value) bool { _, ok := an.ConstInt(v); return ok }); ok {
-				return succ == eq
-			}
-			cd := c04Decode(iff.Cond)
-			if call, ok := cd.x.(*ssa.Call); ok && cd.y == nil && !call.Call.IsInvoke() && len(call.Call.Args) == 2 &&
-				call.Call.Args[0] == r.ruleV && c02IsMsgCallOn(call.Call.Args[1], "Round", r.recvMsg) {
-				if f := r.closureOf(call.Call.Value); f != nil {
-					dups[f] = true
-					return succ == cd.succ(true) // duplicate: skip
+			// a panic inside the handler of some rule is not the dispatch's "unknown rule" panic
+			inCase := false
+			for _, e := range tr.evs {
+				if e.kind == "dec" && e.truth && e.val.is("eq") && e.val.args[0].k == rule.k && e.val.args[1].kind == 'k' {
+					inCase = true
 				}
 			}
-			return false
-		},
-	}, "a classified rule can bypass the dispatch (other than as UponNothing or a duplicate), or an unknown rule is silently ignored instead of panicking")
+			if !inCase && tr.consistent(c04Lit{c04Eq(rule, c04Int(k)), true}) {
+				ok, why = false, "classify can return "+name+" but Run has no case for it: the event panics the instance (\"bug: invalid rule\") or is dropped; path ["+tr.path()+"]"
+			}
+		}
+		c.Check("Run dispatch handles "+name, pos, ok, why)
+	}
+	dups := map[*ssa.Function]bool{}
+	var through []*c04Trace
+	for _, tr := range withCls {
+		if tr.exit == "stop" || tr.exit == "ret" {
+			through = append(through, tr)
+		}
+	}
+	r.forall("Run classify→dispatch", pos, through, func(tr *c04Trace) (bool, string) {
+		ic, rule, _ := r.cls(tr)
+		rnd := r.msgCall(tr, "Round")
+		ok := false
+		for i, e := range tr.evs {
+			if i <= ic {
+				continue
+			}
+			if e.kind == "dec" && e.truth && e.val.is("eq") && e.val.args[0].k == rule.k && e.val.args[1].kind == 'k' {
+				ok = true
+			}
+			if (e.kind == "call" || e.kind == "leave") && e.fn != nil && e.fn.Parent() != nil && e.res != nil && len(e.args) == 2 && e.args[0].k == rule.k && tr.same(e.args[1], rnd) {
+				dups[e.fn] = true
+				if tr.has(e.res, true) {
+					ok = true // duplicate: skip
+				}
+			}
+		}
+		if !ok {
+			for i, e := range tr.evs {
+				if i > ic && e.kind == "call" && strings.HasPrefix(e.name, "value:") && strings.Contains(e.name, rule.k) {
+					return false, "?the rule is dispatched through a function value selected by the rule, which is not followed"
+				}
+			}
+		}
+		return ok, "a classified rule can bypass the dispatch (other than as UponNothing or a duplicate), or an unknown rule is silently ignored instead of panicking"
+	})
 	var fs []*ssa.Function
 	for f := range dups {
 		fs = append(fs, f)
@@ -1584,6 +1589,9 @@ func c04T6(r *c04Run) {
 	for _, f := range fs {
 		r.firstCallReturns("Run duplicate-rule filter first call", f, nil, false,
 			"a rule firing for the first time in a round is treated as a duplicate and skipped")
+	}
+	if len(fs) == 0 {
+		c.Good("Run duplicate-rule filter first call", pos, "rules are not de-duplicated")
 	}
 }
 
@@ -1759,4 +1767,41 @@ var c04Mutants = []Mutant{
 	{ID: "C04-T6-skip-non-current-rounds", File: c04File, Expect: "T6|classify→dispatch",
 		Old: "if rule == UponNothing || isDuplicatedRule(rule, msg.Round()) {",
 		New: "if rule == UponNothing || msg.Round() != round || isDuplicatedRule(rule, msg.Round()) {"},
+	// added with the path-enumerating reformulation (mechanisms a shape-independent rule could have lost)
+	{ID: "C04-T1-timer-for-next-round", File: c04File, Expect: "T1|timer case NewTimer(round)",
+		Old: "\t\t\ttimerChan, stopTimer = d.NewTimer(round)\n\n\t\t\terr = broadcastRoundChange()\n\n\t\tcase <-ctx.Done()",
+		New: "\t\t\ttimerChan, stopTimer = d.NewTimer(round + 1)\n\n\t\t\terr = broadcastRoundChange()\n\n\t\tcase <-ctx.Done()"},
+	{ID: "C04-T1-changeround-inverted-guard", File: c04File, Expect: "T1|round-changing closure",
+		Old: "\t\tif round == newRound {\n\t\t\treturn\n\t\t}\n\n\t\td.LogRoundChange(",
+		New: "\t\tif round != newRound {\n\t\t\treturn\n\t\t}\n\n\t\td.LogRoundChange("},
+	{ID: "C04-T2-timer-channel-dropped", File: c04File, Expect: "T2|UponJustifiedPrePrepare",
+		Old: "\t\t\t\tstopTimer()\n\t\t\t\ttimerChan, stopTimer = d.NewTimer(round)\n\n\t\t\t\tvar errC error\n",
+		New: "\t\t\t\tstopTimer()\n\t\t\t\t_, stopTimer = d.NewTimer(round)\n\n\t\t\t\tvar errC error\n"},
+	{ID: "C04-T2-await-timeout-returns-nil", File: c04File, Expect: "T2|awaitCompare timer case",
+		Old: "\t\t\treturn drainValue(), errTimeout",
+		New: "\t\t\treturn drainValue(), nil"},
+	{ID: "C04-T2-sentinels-swapped-in-run", File: c04File, Expect: "T2|compare-timeout",
+		Old: "\t\t\t\t\tcase errors.Is(errC, errCompare):\n\t\t\t\t\t\tcompareFailureRound = msg.Round()\n\t\t\t\t\tcase errors.Is(errC, errTimeout):",
+		New: "\t\t\t\t\tcase errors.Is(errC, errTimeout):\n\t\t\t\t\t\tcompareFailureRound = msg.Round()\n\t\t\t\t\tcase errors.Is(errC, errCompare):"},
+	{ID: "C04-T3-commit-skipped-for-own-message", File: c04File, Expect: "T3|UponQuorumPrepares→COMMIT",
+		Old: "\t\t\t\terr = broadcastMsg(MsgCommit, preparedValue, nil)\n",
+		New: "\t\t\t\tif msg.Source() != process {\n\t\t\t\t\terr = broadcastMsg(MsgCommit, preparedValue, nil)\n\t\t\t\t}\n"},
+	{ID: "C04-T4-helper-caches-elsewhere", File: c04File, Expect: "T4",
+		Old: "\t\t\tppjCache = justification\n\t\t\treturn nil",
+		New: "\t\t\tpreparedJustification = justification\n\t\t\treturn nil"},
+	{ID: "C04-T4-flush-only-later-rounds", File: c04File, Expect: "T4|flush",
+		Old: "\t\t\tif ppjCache != nil {\n\t\t\t\t// Broadcast the pre-prepare now",
+		New: "\t\t\tif ppjCache != nil && round > 1 {\n\t\t\t\t// Broadcast the pre-prepare now"},
+	{ID: "C04-T5-limiter-args-swapped", File: c04File, Expect: "T5",
+		Old: "\t\t\t\t\tallowDecidedResend(msg.Source(), msg.Round()) {",
+		New: "\t\t\t\t\tallowDecidedResend(msg.Round(), msg.Source()) {"},
+	{ID: "C04-T5-old-rounds-ignored", File: c04File, Expect: "T5|ROUND-CHANGE→DECIDED",
+		Old: "\t\t\tif len(qCommit) > 0 {\n",
+		New: "\t\t\tif len(qCommit) > 0 {\n\t\t\t\tif msg.Round() < round {\n\t\t\t\t\tbreak\n\t\t\t\t}\n\n"},
+	{ID: "C04-T6-dedup-marks-before-test", File: c04File, Expect: "T6|duplicate-rule filter",
+		Old: "\t\tif !dedupRules[key] {\n\t\t\tdedupRules[key] = true\n\n\t\t\treturn false\n\t\t}\n",
+		New: "\t\tdedupRules[key] = true\n\t\tif !dedupRules[key] {\n\t\t\treturn false\n\t\t}\n"},
+	{ID: "C04-T6-quorum-prepares-skipped-before-switch", File: c04File, Expect: "T6|classify→dispatch",
+		Old: "\t\t\td.LogUponRule(ctx, instance, process, round, msg, rule)\n",
+		New: "\t\t\td.LogUponRule(ctx, instance, process, round, msg, rule)\n\n\t\t\tif preparedRound == round {\n\t\t\t\tbreak\n\t\t\t}\n"},
 }
